@@ -286,3 +286,1462 @@ Proof.
     + intros a b x y _ Hb _ Hby. exfalso. apply (RestIn b Hb). eapply AllValidTop; eauto.
     + intros a _ _ b y Hb Hby. apply (RestIn b Hb). eapply AllValidTop; eauto.
 Qed.
+
+(* ======================================================================== *)
+(* Part 2: list helpers                                                      *)
+(* ======================================================================== *)
+
+Lemma upd_length : forall {A} (l : list A) i x, length (upd l i x) = length l.
+Proof. induction l as [|y l IH]; intros [|i] x; simpl; auto. Qed.
+
+Lemma nth_error_upd_eq : forall {A} (l : list A) i x, (i < length l)%nat -> nth_error (upd l i x) i = Some x.
+Proof. induction l as [|y l IH]; intros [|i] x H; simpl in *; try lia; auto. apply IH. lia. Qed.
+
+Lemma nth_error_upd_neq : forall {A} (l : list A) i j x, i <> j -> nth_error (upd l i x) j = nth_error l j.
+Proof.
+  induction l as [|y l IH]; intros [|i] [|j] x H; simpl; auto; try congruence.
+Qed.
+
+Lemma nth_error_lt : forall {A} (l : list A) i x, nth_error l i = Some x -> (i < length l)%nat.
+Proof. intros. apply nth_error_Some. congruence. Qed.
+
+Lemma nth_error_upd : forall {A} (l : list A) i j x y,
+  nth_error (upd l i x) j = Some y -> (i = j /\ y = x) \/ (i <> j /\ nth_error l j = Some y).
+Proof.
+  intros A l i j x y H. destruct (Nat.eq_dec i j) as [->|N].
+  - left. split; [reflexivity|]. assert (j < length l)%nat.
+    { apply nth_error_lt in H. rewrite upd_length in H. exact H. }
+    rewrite nth_error_upd_eq in H by assumption. congruence.
+  - right. rewrite nth_error_upd_neq in H by assumption. auto.
+Qed.
+
+Lemma In_upd : forall {A} (l : list A) i x y, In y (upd l i x) -> y = x \/ In y l.
+Proof.
+  intros A l i x y H. apply In_nth_error in H. destruct H as [j H].
+  apply nth_error_upd in H. destruct H as [[_ ->]|[_ H]]; [left; reflexivity|right].
+  eapply nth_error_In; eauto.
+Qed.
+
+Lemma upd_same_map : forall {A B} (f : A -> B) (l : list A) i x y,
+  nth_error l i = Some y -> f x = f y -> map f (upd l i x) = map f l.
+Proof.
+  induction l as [|z l IH]; intros [|i] x y H E; simpl in *; try discriminate.
+  - inversion H; subst. rewrite E. reflexivity.
+  - f_equal. eapply IH; eauto.
+Qed.
+
+Fixpoint somes {A} (l : list (option A)) : list A :=
+  match l with [] => [] | Some x :: r => x :: somes r | None :: r => somes r end.
+
+Lemma somes_In : forall {A} (l : list (option A)) x, In x (somes l) <-> In (Some x) l.
+Proof.
+  induction l as [|[y|] l IH]; intro x; simpl.
+  - tauto.
+  - rewrite IH. split; intros [H|H]; auto; left; congruence.
+  - rewrite IH. split; [auto|]. intros [H|H]; [discriminate|exact H].
+Qed.
+
+Lemma somes_map_Some : forall {A} (l : list A), somes (map Some l) = l.
+Proof. induction l; simpl; congruence. Qed.
+
+(* replacing a None by Some t in position i adds t *)
+Lemma somes_upd_None : forall {A} (l : list (option A)) i t,
+  nth_error l i = Some None -> Permutation (somes (upd l i (Some t))) (t :: somes l).
+Proof.
+  induction l as [|[y|] l IH]; intros [|i] t H; simpl in *; try discriminate.
+  - rewrite (IH _ _ H). apply perm_swap.
+  - reflexivity.
+  - apply IH. exact H.
+Qed.
+
+Lemma nodup_somes_pos : forall {A} (l : list (option A)) i j x,
+  NoDup (somes l) -> nth_error l i = Some (Some x) -> nth_error l j = Some (Some x) -> i = j.
+Proof.
+  induction l as [|y l IH]; intros [|i] [|j] x N Hi Hj; simpl in *; try discriminate; auto.
+  - inversion Hi; subst. simpl in N. inversion N; subst. exfalso. apply H1.
+    apply somes_In. eapply nth_error_In; eauto.
+  - inversion Hj; subst. simpl in N. inversion N; subst. exfalso. apply H1.
+    apply somes_In. eapply nth_error_In; eauto.
+  - f_equal. eapply IH; eauto. destruct y; simpl in N; [inversion N; auto|auto].
+Qed.
+
+Lemma all_some_map : forall (l : list (option Z)),
+  (forall x, In x l -> x <> None) -> l = map Some (somes l).
+Proof.
+  induction l as [|[y|] l IH]; intro H; simpl.
+  - reflexivity.
+  - f_equal. apply IH. intros x Hx. apply H. right. exact Hx.
+  - exfalso. apply (H None); [left; reflexivity|reflexivity].
+Qed.
+
+Lemma nodup_map_Some : forall {A} (l : list A), NoDup l -> NoDup (map Some l).
+Proof.
+  intros A l N. apply FinFun.Injective_map_NoDup; [|exact N]. intros x y E. congruence.
+Qed.
+
+(* ======================================================================== *)
+(* Part 3: one bracket                                                       *)
+(* ======================================================================== *)
+
+Definition is_full (sl : list slot) (ffp : nat) : bool :=
+  Nat.leb (length sl) ffp && Nat.eqb (count_pending sl ffp) 0.
+
+Definition cur_ids (b : bracket) : list Z :=
+  match current_rung_and_level b with Ok (sl, _) => somes (map fst sl) | Error _ => [] end.
+
+Lemma crl_inv : forall b sl lv, current_rung_and_level b = Ok (sl, lv) ->
+  nth_error (rungs b) (current_rung b) = Some (Filled sl lv) /\ is_bracket_complete b = false.
+Proof.
+  unfold current_rung_and_level, is_bracket_complete. intros b sl lv H.
+  destruct (nth_error (rungs b) (current_rung b)) as [[sl' lv'|]|] eqn:E; try discriminate.
+  inversion H; subst. split; [reflexivity|]. apply nth_error_lt in E. apply Nat.leb_gt. exact E.
+Qed.
+
+Lemma crl_of_nth : forall b sl lv, nth_error (rungs b) (current_rung b) = Some (Filled sl lv) ->
+  current_rung_and_level b = Ok (sl, lv).
+Proof. unfold current_rung_and_level. intros b sl lv ->. reflexivity. Qed.
+
+Lemma complete_crl : forall b, is_bracket_complete b = true -> exists e, current_rung_and_level b = Error e.
+Proof.
+  unfold current_rung_and_level, is_bracket_complete. intros b H. apply Nat.leb_le in H.
+  destruct (nth_error (rungs b) (current_rung b)) eqn:E.
+  - apply nth_error_lt in E. lia.
+  - eexists; reflexivity.
+Qed.
+
+Lemma count_pending_zero : forall sl ffp, (length sl <= ffp)%nat -> count_pending sl ffp = 0%nat ->
+  forall s, In s sl -> snd s <> None.
+Proof.
+  unfold count_pending. intros sl ffp L C s Hs E.
+  rewrite firstn_all2 in C by exact L.
+  assert (In s (filter (fun x => is_none (snd x)) sl)).
+  { apply filter_In. split; [exact Hs|]. rewrite E. reflexivity. }
+  destruct (filter (fun x => is_none (snd x)) sl); [contradiction|discriminate].
+Qed.
+
+Lemma is_full_spec : forall sl ffp, is_full sl ffp = true ->
+  (length sl <= ffp)%nat /\ forall s, In s sl -> snd s <> None.
+Proof.
+  unfold is_full. intros sl ffp H. apply andb_true_iff in H. destruct H as [H1 H2].
+  apply Nat.leb_le in H1. apply Nat.eqb_eq in H2. split; [exact H1|].
+  eapply count_pending_zero; eauto.
+Qed.
+
+Lemma not_full_spec : forall sl ffp, (ffp <= length sl)%nat -> is_full sl ffp = false ->
+  (forall pos s, (ffp <= pos)%nat -> nth_error sl pos = Some s -> snd s = None) ->
+  exists pos t, nth_error sl pos = Some (t, None).
+Proof.
+  unfold is_full, count_pending. intros sl ffp L H Free.
+  apply andb_false_iff in H. destruct H as [H|H].
+  - apply Nat.leb_gt in H. destruct (nth_error sl ffp) as [[t mv]|] eqn:E.
+    + exists ffp, t. specialize (Free ffp (t, mv) (le_n _) E). simpl in Free. subst. exact E.
+    + apply nth_error_None in E. lia.
+  - apply Nat.eqb_neq in H.
+    destruct (filter (fun x => is_none (snd x)) (firstn ffp sl)) as [|[t mv] r] eqn:E; [simpl in H; lia|].
+    assert (I : In (t, mv) (filter (fun x => is_none (snd x)) (firstn ffp sl))) by (rewrite E; left; reflexivity).
+    apply filter_In in I. destruct I as [I N]. apply in_firstn in I. simpl in N. destruct mv; [discriminate|].
+    apply In_nth_error in I. destruct I as [pos I]. exists pos, t. exact I.
+Qed.
+
+Lemma occupied_values_all : forall sl, (forall s, In s sl -> snd s <> None) ->
+  exists vals, occupied_values sl = Some vals /\ map fst vals = map fst sl /\
+    forall t v, In (t, v) vals <-> In (t, Some v) sl.
+Proof.
+  induction sl as [|[t [v|]] sl IH]; intro H; simpl.
+  - exists []. repeat split; simpl; tauto.
+  - destruct IH as [vals [E [M I]]]. { intros s Hs. apply H. right. exact Hs. }
+    rewrite E. exists ((t, v) :: vals). repeat split; simpl; try congruence.
+    + intros [X|X]; [left; congruence|right; apply I; exact X].
+    + intros [X|X]; [left; congruence|right; apply I; exact X].
+  - exfalso. apply (H (t, None)); [left; reflexivity|reflexivity].
+Qed.
+
+Lemma occupied_values_some : forall sl vals, occupied_values sl = Some vals ->
+  map fst vals = map fst sl /\ length vals = length sl.
+Proof.
+  induction sl as [|[t [v|]] sl IH]; intros vals H; simpl in *; try discriminate.
+  - inversion H. auto.
+  - destruct (occupied_values sl) eqn:E; [|discriminate]. inversion H; subst.
+    destruct (IH _ eq_refl) as [A B]. simpl. split; congruence.
+Qed.
+
+(* what an accepted result does to a bracket *)
+Lemma bor_inv : forall b r sl lv b' out,
+  current_rung_and_level b = Ok (sl, lv) ->
+  bracket_on_result b r = Ok (b', out) ->
+  rung_index r = current_rung b /\ (slot_index r < first_free_pos b)%nat /\ level r = lv /\
+  (exists t0, nth_error sl (slot_index r) = Some (t0, None) /\ (t0 = None \/ t0 = trial_id r)) /\
+  exists v, metric_val r = Some v /\
+  let sl' := upd sl (slot_index r) (trial_id r, Some v) in
+  let rungs1 := upd (rungs b) (current_rung b) (Filled sl' lv) in
+  ( (is_full sl' (first_free_pos b) = false /\
+     b' = mkB (bmode b) (first_free_pos b) (current_rung b) rungs1 /\ out = None)
+  \/ (is_full sl' (first_free_pos b) = true /\ (length rungs1 <= S (current_rung b))%nat /\
+     b' = mkB (bmode b) 0 (S (current_rung b)) rungs1 /\ out = None)
+  \/ (is_full sl' (first_free_pos b) = true /\
+     exists nl ms vals top rem,
+       nth_error rungs1 (S (current_rung b)) = Some (Future nl ms) /\
+       occupied_values sl' = Some vals /\
+       get_top_list (bmode b) vals nl = (top, rem) /\
+       b' = mkB (bmode b) 0 (S (current_rung b))
+                (upd rungs1 (S (current_rung b)) (Filled (map (fun t => (t, None)) top) ms)) /\
+       out = Some rem)).
+Proof.
+  intros b r sl lv b' out C H. unfold bracket_on_result in H. rewrite C in H.
+  destruct (crl_inv _ _ _ C) as [Nth NC].
+  destruct (Nat.eqb (rung_index r) (current_rung b)) eqn:E1; simpl in H; [|discriminate].
+  apply Nat.eqb_eq in E1.
+  destruct (Nat.ltb (slot_index r) (first_free_pos b)) eqn:E2; simpl in H; [|discriminate].
+  apply Nat.ltb_lt in E2.
+  destruct (Z.eqb (level r) lv) eqn:E3; simpl in H; [|discriminate]. apply Z.eqb_eq in E3.
+  destruct (nth_error sl (slot_index r)) as [[t0 mv0]|] eqn:E4; [|discriminate].
+  destruct (match t0 with Some _ => negb (tid_eqb (trial_id r) t0) | None => false end) eqn:E5; [discriminate|].
+  destruct mv0 as [?|]; [discriminate|].
+  destruct (metric_val r) as [v|] eqn:E6; [|discriminate].
+  split; [exact E1|]. split; [exact E2|]. split; [exact E3|]. split.
+  { exists t0. split; [reflexivity|]. destruct t0 as [z|]; [right|left; reflexivity].
+    apply negb_false_iff, tid_eqb_eq in E5. congruence. }
+  exists v. split; [reflexivity|]. cbv zeta.
+  set (sl' := upd sl (slot_index r) (trial_id r, Some v)) in *.
+  set (rungs1 := upd (rungs b) (current_rung b) (Filled sl' lv)) in *.
+  fold (is_full sl' (first_free_pos b)) in H.
+  destruct (is_full sl' (first_free_pos b)) eqn:F.
+  - unfold is_bracket_complete in H. cbn [rungs current_rung] in H.
+    destruct (Nat.leb (length rungs1) (S (current_rung b))) eqn:L.
+    + apply Nat.leb_le in L. inversion H; subst. right. left. auto.
+    + right. right. split; [reflexivity|]. unfold promote in H. cbn [rungs current_rung bmode first_free_pos] in H.
+      replace (S (current_rung b) - 1)%nat with (current_rung b) in H by lia.
+      assert (N1 : nth_error rungs1 (current_rung b) = Some (Filled sl' lv)).
+      { unfold rungs1. apply nth_error_upd_eq. eapply nth_error_lt; eauto. }
+      rewrite N1 in H.
+      destruct (nth_error rungs1 (S (current_rung b))) as [[?|nl ms]|] eqn:N2; try discriminate.
+      destruct (occupied_values sl') as [vals|] eqn:OV; [|discriminate].
+      destruct (get_top_list (bmode b) vals nl) as [top rem] eqn:G.
+      inversion H; subst. exists nl, ms, vals, top, rem. auto.
+  - inversion H; subst. left. auto.
+Qed.
+
+(* an answer that satisfies the protocol is accepted *)
+Lemma bor_ok : forall b r sl lv t0 v,
+  current_rung_and_level b = Ok (sl, lv) ->
+  rung_index r = current_rung b -> (slot_index r < first_free_pos b)%nat -> level r = lv ->
+  nth_error sl (slot_index r) = Some (t0, None) -> (t0 = None \/ t0 = trial_id r) ->
+  metric_val r = Some v ->
+  (forall e, nth_error (rungs b) (S (current_rung b)) = Some e -> exists nl ms, e = Future nl ms) ->
+  exists b' out, bracket_on_result b r = Ok (b', out).
+Proof.
+  intros b r sl lv t0 v C E1 E2 E3 E4 E5 E6 Fut. unfold bracket_on_result. rewrite C.
+  destruct (crl_inv _ _ _ C) as [Nth NC].
+  apply Nat.eqb_eq in E1. rewrite E1. apply Nat.ltb_lt in E2. rewrite E2. simpl.
+  apply Z.eqb_eq in E3. rewrite E3. simpl. rewrite E4.
+  replace (match t0 with Some _ => negb (tid_eqb (trial_id r) t0) | None => false end) with false.
+  2:{ destruct t0 as [z|]; [|reflexivity]. destruct E5 as [E5|E5]; [discriminate|].
+      symmetry. apply negb_false_iff, tid_eqb_eq. congruence. }
+  rewrite E6.
+  set (sl' := upd sl (slot_index r) (trial_id r, Some v)).
+  set (rungs1 := upd (rungs b) (current_rung b) (Filled sl' lv)).
+  fold (is_full sl' (first_free_pos b)).
+  destruct (is_full sl' (first_free_pos b)) eqn:F; [|eauto].
+  unfold is_bracket_complete. cbn [rungs current_rung].
+  destruct (Nat.leb (length rungs1) (S (current_rung b))) eqn:L; [eauto|].
+  apply Nat.leb_gt in L. unfold promote. cbn [rungs current_rung bmode first_free_pos].
+  replace (S (current_rung b) - 1)%nat with (current_rung b) by lia.
+  assert (N1 : nth_error rungs1 (current_rung b) = Some (Filled sl' lv)).
+  { unfold rungs1. apply nth_error_upd_eq. eapply nth_error_lt; eauto. }
+  rewrite N1.
+  destruct (nth_error rungs1 (S (current_rung b))) as [e|] eqn:N2.
+  2:{ apply nth_error_None in N2. lia. }
+  unfold rungs1 in N2. rewrite nth_error_upd_neq in N2 by lia.
+  destruct (Fut _ N2) as [nl [ms ->]].
+  destruct (is_full_spec _ _ F) as [_ Occ].
+  destruct (occupied_values_all sl' Occ) as [vals [OV _]]. rewrite OV.
+  destruct (get_top_list (bmode b) vals nl) as [top rem]. eauto.
+Qed.
+
+(* ---- the invariant of one bracket ---------------------------------------- *)
+
+Definition entry_shape (e : rentry) : nat * Z :=
+  match e with Filled sl lv => (length sl, lv) | Future n lv => (n, lv) end.
+Definition occupied (s : slot) : Prop := exists t v, s = (Some t, Some v).
+Definition full_rung (sl : list slot) : Prop := Forall occupied sl /\ NoDup (map fst sl).
+
+Record cur_ok (sl : list slot) (ffp : nat) : Prop := mkCurOk {
+  co_ffp : (ffp <= length sl)%nat;
+  co_free : forall pos s, (ffp <= pos)%nat -> nth_error sl pos = Some s -> snd s = None;
+  co_open : exists pos t, nth_error sl pos = Some (t, None);
+  co_occ : forall t v, In (t, Some v) sl -> t <> None;
+  co_nodup : NoDup (somes (map fst sl)) }.
+
+Record BInv (sys : rung_system) (md : mode) (b : bracket) : Prop := mkBInv {
+  bi_sys : map entry_shape (rungs b) = sys;
+  bi_mode : bmode b = md;
+  bi_cur : (current_rung b <= length (rungs b))%nat;
+  bi_done : forall k, (k < current_rung b)%nat ->
+            exists sl lv, nth_error (rungs b) k = Some (Filled sl lv) /\ full_rung sl;
+  bi_fut : forall k e, (current_rung b < k)%nat -> nth_error (rungs b) k = Some e ->
+           exists n lv, e = Future n lv;
+  bi_open : (current_rung b < length (rungs b))%nat ->
+            exists sl lv, nth_error (rungs b) (current_rung b) = Some (Filled sl lv) /\
+                          cur_ok sl (first_free_pos b);
+  bi_closed : current_rung b = length (rungs b) -> first_free_pos b = 0%nat }.
+
+Lemma binv_cur_ok : forall sys md b sl lv, BInv sys md b ->
+  current_rung_and_level b = Ok (sl, lv) -> cur_ok sl (first_free_pos b).
+Proof.
+  intros sys md b sl lv B C. destruct (crl_inv _ _ _ C) as [N _].
+  destruct (bi_open _ _ _ B) as [sl' [lv' [N' CO]]]; [eapply nth_error_lt; eauto|].
+  rewrite N in N'. inversion N'; subst. exact CO.
+Qed.
+
+Lemma binv_crl : forall sys md b, BInv sys md b -> is_bracket_complete b = false ->
+  exists sl lv, current_rung_and_level b = Ok (sl, lv).
+Proof.
+  intros sys md b B NC. unfold is_bracket_complete in NC. apply Nat.leb_gt in NC.
+  destruct (bi_open _ _ _ B NC) as [sl [lv [N _]]]. exists sl, lv. apply crl_of_nth. exact N.
+Qed.
+
+(* rung systems accepted by assert_check_rungs *)
+Lemma decreasing_nth : forall l k a b, decreasing_nat l = true ->
+  nth_error l k = Some a -> nth_error l (S k) = Some b -> (b < a)%nat.
+Proof.
+  induction l as [|x l IH]; intros k a b D Ha Hb; [destruct k; discriminate|].
+  destruct l as [|y l]; [destruct k; simpl in Hb; try discriminate; destruct k; discriminate|].
+  simpl in D. apply andb_true_iff in D. destruct D as [D1 D2]. destruct k as [|k].
+  - simpl in Ha, Hb. inversion Ha; inversion Hb; subst. apply Nat.ltb_lt. exact D1.
+  - eapply (IH k); eauto.
+Qed.
+
+Lemma check_rungs_spec : forall sys, check_rungs sys = true ->
+  sys <> [] /\ (forall k n lv, nth_error sys k = Some (n, lv) -> (1 <= n)%nat) /\
+  (forall k n lv n' lv', nth_error sys k = Some (n, lv) -> nth_error sys (S k) = Some (n', lv') -> (n' < n)%nat).
+Proof.
+  unfold check_rungs. intros sys H. repeat (apply andb_true_iff in H; destruct H as [H ?]).
+  split; [|split].
+  - destruct sys; [discriminate|congruence].
+  - intros k n lv N. rewrite forallb_forall in H1. apply nth_error_In in N.
+    specialize (H1 _ N). simpl in H1. apply Nat.leb_le. exact H1.
+  - intros k n lv n' lv' N N'. eapply (decreasing_nth (map fst sys) k); eauto.
+    + rewrite nth_error_map, N. reflexivity.
+    + rewrite nth_error_map, N'. reflexivity.
+Qed.
+
+Lemma map_shape_future : forall rest : rung_system,
+  map entry_shape (map (fun x => Future (fst x) (snd x)) rest) = rest.
+Proof. induction rest as [|[a b] r IH]; simpl; congruence. Qed.
+
+Lemma somes_repeat_none : forall n, somes (map fst (repeat ((None, None) : slot) n)) = [].
+Proof. induction n; simpl; auto. Qed.
+
+Lemma nth_error_repeat : forall {A} (x : A) n k y, nth_error (repeat x n) k = Some y -> y = x.
+Proof. intros A x n k y H. apply nth_error_In in H. eapply repeat_spec; eauto. Qed.
+
+Lemma binv_new : forall sys md, check_rungs sys = true -> BInv sys md (new_bracket sys md).
+Proof.
+  intros sys md CK. destruct (check_rungs_spec _ CK) as [NE [Pos _]].
+  destruct sys as [|[size lv] rest]; [congruence|]. unfold new_bracket.
+  assert (1 <= size)%nat by (apply (Pos 0%nat size lv); reflexivity).
+  constructor; cbn [rungs current_rung first_free_pos bmode].
+  - simpl. rewrite repeat_length, map_shape_future. reflexivity.
+  - reflexivity.
+  - lia.
+  - intros k Hk. lia.
+  - intros k e Hk N. destruct k as [|k]; [lia|]. simpl in N.
+    rewrite nth_error_map in N. destruct (nth_error rest k); [|discriminate].
+    inversion N. eauto.
+  - intros _. exists (repeat (None, None) size), lv. split; [reflexivity|]. constructor.
+    + lia.
+    + intros pos s _ N. apply nth_error_repeat in N. subst. reflexivity.
+    + exists 0%nat, None. destruct size; [lia|]. reflexivity.
+    + intros t v I. apply repeat_spec in I. discriminate.
+    + rewrite somes_repeat_none. constructor.
+  - simpl. intros. lia.
+Qed.
+
+Definition bump (b : bracket) : bracket :=
+  mkB (bmode b) (S (first_free_pos b)) (current_rung b) (rungs b).
+
+Lemma binv_bump : forall sys md b sl lv, BInv sys md b ->
+  current_rung_and_level b = Ok (sl, lv) -> (first_free_pos b < length sl)%nat ->
+  BInv sys md (bump b).
+Proof.
+  intros sys md b sl lv B C L. destruct (crl_inv _ _ _ C) as [N _].
+  destruct B as [B1 B2 B3 B4 B5 B6 B7].
+  constructor; cbn [bump rungs current_rung first_free_pos bmode]; auto.
+  - intro Hc. destruct (B6 Hc) as [sl' [lv' [N' CO]]]. rewrite N in N'. inversion N'; subst sl' lv'.
+    exists sl, lv. split; [exact N|]. destruct CO as [C1 C2 C3 C4 C5]. constructor; auto.
+    intros pos s Hp. apply C2. lia.
+  - intro Hc. apply nth_error_lt in N. lia.
+Qed.
+
+Lemma map_upd : forall {A B} (f : A -> B) l i x, map f (upd l i x) = upd (map f l) i (f x).
+Proof. induction l as [|y l IH]; intros [|i] x; simpl; auto. rewrite IH. reflexivity. Qed.
+
+Lemma nodup_somes : forall {A} (l : list (option A)), NoDup l -> NoDup (somes l).
+Proof.
+  induction l as [|[x|] l IH]; intro N; simpl.
+  - constructor.
+  - inversion N; subst. constructor; [|apply IH; assumption]. intro H. apply somes_In in H. contradiction.
+  - inversion N; subst. apply IH. assumption.
+Qed.
+
+(* ids of the rung after writing (Some t, Some v) into position pos *)
+Lemma ids_after_write : forall (sl : list slot) pos t0 t v,
+  nth_error sl pos = Some (t0, None) -> (t0 = None \/ t0 = Some t) ->
+  (t0 = None -> ~ In t (somes (map fst sl))) ->
+  NoDup (somes (map fst sl)) ->
+  NoDup (somes (map fst (upd sl pos (Some t, Some v)))) /\
+  forall x, In x (somes (map fst (upd sl pos (Some t, Some v)))) -> In x (somes (map fst sl)) \/ x = t.
+Proof.
+  intros sl pos t0 t v N T K ND. unfold slot in *. destruct T as [-> | ->].
+  - rewrite map_upd. simpl.
+    assert (P : Permutation (somes (upd (map fst sl) pos (Some t))) (t :: somes (map fst sl))).
+    { apply somes_upd_None. rewrite nth_error_map. unfold slot in *. rewrite N. reflexivity. }
+    split.
+    + eapply Permutation_NoDup; [apply Permutation_sym; exact P|]. constructor; auto.
+    + intros x Hx. eapply Permutation_in in Hx; [|exact P]. destruct Hx; auto.
+  - rewrite (upd_same_map fst sl pos (Some t, Some v) (Some t, None) N eq_refl). auto.
+Qed.
+
+Section Answer.
+  Variables (sys : rung_system) (md : mode) (b b' : bracket) (r : slot_in_rung)
+            (sl : list slot) (lv : Z) (out : option (list tid)) (t : Z).
+  Hypothesis CK : check_rungs sys = true.
+  Hypothesis B : BInv sys md b.
+  Hypothesis C : current_rung_and_level b = Ok (sl, lv).
+  Hypothesis R : bracket_on_result b r = Ok (b', out).
+  Hypothesis TID : trial_id r = Some t.
+  Hypothesis FRESH : nth_error sl (slot_index r) = Some (None, None) -> ~ In t (cur_ids b).
+
+  Lemma answer_facts :
+    exists t0 v, nth_error sl (slot_index r) = Some (t0, None) /\ (t0 = None \/ t0 = Some t) /\
+      metric_val r = Some v /\
+      let sl' := upd sl (slot_index r) (Some t, Some v) in
+      NoDup (somes (map fst sl')) /\
+      (forall x, In x (somes (map fst sl')) -> In x (cur_ids b) \/ x = t) /\
+      (forall x w, In (x, Some w) sl' -> x <> None) /\ length sl' = length sl.
+  Proof.
+    destruct (bor_inv _ _ _ _ _ _ C R) as [_ [_ [_ [[t0 [N T]] [v [MV _]]]]]].
+    rewrite TID in T. exists t0, v. split; [exact N|]. split; [exact T|]. split; [exact MV|].
+    assert (CO := binv_cur_ok _ _ _ _ _ B C). cbv zeta.
+    assert (CI : cur_ids b = somes (map fst sl)) by (unfold cur_ids; rewrite C; reflexivity).
+    destruct (ids_after_write sl (slot_index r) t0 t v N T) as [ND IN].
+    { intros ->. rewrite <- CI. apply FRESH. exact N. }
+    { exact (co_nodup _ _ CO). }
+    split; [exact ND|]. split; [rewrite CI; exact IN|]. split; [|apply upd_length].
+    intros x w I. apply In_upd in I. destruct I as [I|I]; [inversion I; discriminate|].
+    eapply (co_occ _ _ CO); eauto.
+  Qed.
+
+  Lemma binv_answer : BInv sys md b'.
+  Proof.
+    destruct answer_facts as [t0 [v [N [T [MV [ND [_ [OCC LEN]]]]]]]]. cbv zeta in *.
+    destruct (bor_inv _ _ _ _ _ _ C R) as [E1 [E2 [E3 [_ [v' [MV' Cases]]]]]].
+    rewrite MV in MV'. inversion MV'; subst v'. clear MV'. rewrite TID in Cases. cbv zeta in Cases.
+    set (sl' := upd sl (slot_index r) (Some t, Some v)) in *.
+    set (rungs1 := upd (rungs b) (current_rung b) (Filled sl' lv)) in *.
+    destruct (crl_inv _ _ _ C) as [Nth NC].
+    assert (Lc : (current_rung b < length (rungs b))%nat) by (eapply nth_error_lt; eauto).
+    assert (CO := binv_cur_ok _ _ _ _ _ B C).
+    destruct B as [B1 B2 B3 B4 B5 B6 B7].
+    assert (Sys1 : map entry_shape rungs1 = sys).
+    { unfold rungs1. rewrite (upd_same_map entry_shape _ _ _ _ Nth); [exact B1|]. simpl. rewrite LEN. reflexivity. }
+    assert (Len1 : length rungs1 = length (rungs b)) by apply upd_length.
+    assert (N1 : nth_error rungs1 (current_rung b) = Some (Filled sl' lv))
+      by (apply nth_error_upd_eq; exact Lc).
+    assert (Done1 : forall k, (k < current_rung b)%nat ->
+              exists sl0 lv0, nth_error rungs1 k = Some (Filled sl0 lv0) /\ full_rung sl0).
+    { intros k Hk. unfold rungs1. rewrite nth_error_upd_neq by lia. apply B4. exact Hk. }
+    assert (Fut1 : forall k e, (current_rung b < k)%nat -> nth_error rungs1 k = Some e -> exists n lv0, e = Future n lv0).
+    { intros k e Hk. unfold rungs1. rewrite nth_error_upd_neq by lia. apply B5. exact Hk. }
+    assert (Full : is_full sl' (first_free_pos b) = true -> full_rung sl').
+    { intro F. destruct (is_full_spec _ _ F) as [_ Occ]. split.
+      - apply Forall_forall. intros [x [w|]] I; [|exfalso; apply (Occ _ I); reflexivity].
+        destruct x as [x|]; [exists x, w; reflexivity|]. exfalso. apply (OCC None w I). reflexivity.
+      - rewrite (all_some_map (map fst sl')).
+        + apply nodup_map_Some. exact ND.
+        + intros x Hx. apply in_map_iff in Hx. destruct Hx as [[x' [w|]] [<- I]]; simpl.
+          * eapply OCC; eauto.
+          * exfalso. apply (Occ _ I). reflexivity. }
+    destruct Cases as [[F [-> _]]|[[F [L [-> _]]]|[F [nl [ms [vals [top [rem [N2 [OV [G [-> _]]]]]]]]]]]].
+    - (* rung not complete *)
+      constructor; cbn [rungs current_rung first_free_pos bmode].
+      + exact Sys1.
+      + exact B2.
+      + rewrite ?upd_length; lia.
+      + exact Done1.
+      + exact Fut1.
+      + intros _. exists sl', lv. split; [exact N1|].
+        assert (Free' : forall pos s, (first_free_pos b <= pos)%nat -> nth_error sl' pos = Some s -> snd s = None).
+        { intros pos s Hp Hs. unfold sl' in Hs. rewrite nth_error_upd_neq in Hs by lia.
+          eapply (co_free _ _ CO); eauto. }
+        constructor; auto.
+        * rewrite LEN. exact (co_ffp _ _ CO).
+        * apply (not_full_spec sl' (first_free_pos b)); auto. rewrite LEN. exact (co_ffp _ _ CO).
+      + intros Hc. rewrite ?upd_length in *. lia.
+    - (* last rung complete: the bracket is complete *)
+      constructor; cbn [rungs current_rung first_free_pos bmode].
+      + exact Sys1.
+      + exact B2.
+      + rewrite ?upd_length; lia.
+      + intros k Hk. destruct (Nat.eq_dec k (current_rung b)) as [->|NE].
+        * exists sl', lv. split; [exact N1|]. apply Full. exact F.
+        * apply Done1. lia.
+      + intros k e Hk Hn. apply nth_error_lt in Hn. rewrite ?upd_length in *. lia.
+      + intros Hc. rewrite ?upd_length in *. lia.
+      + reflexivity.
+    - (* rung complete: promotion into the next rung *)
+      assert (N2' : nth_error (rungs b) (S (current_rung b)) = Some (Future nl ms)).
+      { unfold rungs1 in N2. rewrite nth_error_upd_neq in N2 by lia. exact N2. }
+      destruct (check_rungs_spec _ CK) as [_ [Pos Dec]].
+      assert (S0 : nth_error sys (current_rung b) = Some (length sl, lv)).
+      { rewrite <- B1, nth_error_map, Nth. reflexivity. }
+      assert (S1 : nth_error sys (S (current_rung b)) = Some (nl, ms)).
+      { rewrite <- B1, nth_error_map, N2'. reflexivity. }
+      assert (nl < length sl)%nat by (eapply Dec; eauto).
+      assert (1 <= nl)%nat by (eapply Pos; eauto).
+      destruct (occupied_values_some _ _ OV) as [MF LV].
+      destruct (Full F) as [_ NDf].
+      destruct (get_top_list_spec _ _ _ _ _ G) as [LT [PT _]].
+      { rewrite MF. exact NDf. } { rewrite LV, ?upd_length. lia. }
+      assert (NDt : NoDup top).
+      { eapply nodup_app_l. eapply Permutation_NoDup; [apply Permutation_sym; exact PT|]. rewrite MF. exact NDf. }
+      set (newr := map (fun t1 : tid => (t1, @None mval)) top).
+      assert (L2 : (S (current_rung b) < length rungs1)%nat) by (eapply nth_error_lt; eauto).
+      constructor; cbn [rungs current_rung first_free_pos bmode].
+      + rewrite (upd_same_map entry_shape _ _ _ _ N2); [exact Sys1|]. simpl. unfold newr.
+        rewrite map_length, LT. reflexivity.
+      + exact B2.
+      + rewrite ?upd_length in *. lia.
+      + intros k Hk. rewrite nth_error_upd_neq by lia. destruct (Nat.eq_dec k (current_rung b)) as [->|NE].
+        * exists sl', lv. split; [exact N1|]. apply Full. exact F.
+        * apply Done1. lia.
+      + intros k e Hk. rewrite nth_error_upd_neq by lia. apply Fut1. lia.
+      + intros _. exists newr, ms. split; [apply nth_error_upd_eq; exact L2|].
+        assert (Snd : forall s, In s newr -> snd s = None).
+        { intros s I. unfold newr in I. apply in_map_iff in I. destruct I as [x [<- _]]. reflexivity. }
+        constructor.
+        * lia.
+        * intros pos s _ Hs. apply Snd. eapply nth_error_In; eauto.
+        * destruct top as [|x top']; [simpl in LT; lia|]. exists 0%nat, x. reflexivity.
+        * intros x w I. apply Snd in I. discriminate.
+        * unfold newr. rewrite map_map. simpl. rewrite map_id. apply nodup_somes. exact NDt.
+      + rewrite ?upd_length in *. lia.
+  Qed.
+
+  (* the trial ids of the (new) current rung come from the old one, plus t *)
+  Lemma cur_ids_answer : forall x, In x (cur_ids b') -> In x (cur_ids b) \/ x = t.
+  Proof.
+    destruct answer_facts as [t0 [v [N [T [MV [ND [IN [OCC LEN]]]]]]]]. cbv zeta in *.
+    destruct (bor_inv _ _ _ _ _ _ C R) as [E1 [E2 [E3 [_ [v' [MV' Cases]]]]]].
+    rewrite MV in MV'. inversion MV'; subst v'. clear MV'. rewrite TID in Cases. cbv zeta in Cases.
+    destruct (crl_inv _ _ _ C) as [Nth NC].
+    assert (Lc : (current_rung b < length (rungs b))%nat) by (eapply nth_error_lt; eauto).
+    assert (N1 : nth_error (upd (rungs b) (current_rung b) (Filled (upd sl (slot_index r) (Some t, Some v)) lv))
+                           (current_rung b) = Some (Filled (upd sl (slot_index r) (Some t, Some v)) lv))
+      by (apply nth_error_upd_eq; exact Lc).
+    intros x Hx.
+    destruct Cases as [[F [-> _]]|[[F [L [-> _]]]|[F [nl [ms [vals [top [rem [N2 [OV [G [-> _]]]]]]]]]]]];
+      unfold cur_ids, current_rung_and_level in Hx; cbn [rungs current_rung] in Hx.
+    - unfold slot, tid in *. rewrite N1 in Hx. apply IN. exact Hx.
+    - match type of Hx with context [nth_error ?l ?k] => destruct (nth_error l k) eqn:E end.
+      + apply nth_error_lt in E. rewrite ?upd_length in *. lia.
+      + contradiction.
+    - rewrite nth_error_upd_eq in Hx by (eapply nth_error_lt; eauto).
+      rewrite map_map in Hx. simpl in Hx. rewrite map_id in Hx. apply somes_In in Hx.
+      destruct (occupied_values_some _ _ OV) as [MF _].
+      unfold get_top_list in G. inversion G as [[Top Rem]]. clear G Rem.
+      assert (Hv : In (Some x) (map fst vals)).
+      { destruct (Nat.leb nl (length (valid_entries vals))).
+        + rewrite <- Top in Hx. apply in_map_iff in Hx. destruct Hx as [[x' w] [E I]]. simpl in E. subst x'.
+          apply in_firstn in I. eapply Permutation_in in I; [|apply sort_stable_perm].
+          apply valid_entries_In in I. apply (in_map fst) in I. exact I.
+        + rewrite <- Top in Hx. apply in_app_or in Hx.
+          eapply Permutation_in; [apply valid_invalid_perm|]. apply in_or_app.
+          destruct Hx as [Hx|Hx]; [left; exact Hx|right; eapply in_firstn; exact Hx]. }
+      apply IN. apply somes_In. rewrite MF in Hv. exact Hv.
+  Qed.
+End Answer.
+
+(* ======================================================================== *)
+(* Part 4: all brackets + the pending table                                  *)
+(* ======================================================================== *)
+
+Record pend_ok (bs : list bracket) (t : Z) (bid : nat) (s : slot_in_rung) : Prop := mkPendOk {
+  po_b : exists b sl lv t0,
+     nth_error bs bid = Some b /\ current_rung_and_level b = Ok (sl, lv) /\
+     rung_index s = current_rung b /\ (slot_index s < first_free_pos b)%nat /\ level s = lv /\
+     nth_error sl (slot_index s) = Some (t0, None) /\ (t0 = None \/ t0 = Some t) /\
+     (t0 = None -> forall j b', nth_error bs j = Some b' -> ~ In t (cur_ids b'));
+  po_tid : trial_id s = Some t;
+  po_mv : metric_val s = None }.
+
+Record InvCore (rss : list rung_system) (md : mode) (bs : list bracket) (P : list (Z * job)) (n : Z) : Prop := mkInvCore {
+  ic_b : forall j b, nth_error bs j = Some b -> BInv (nth (j mod length rss) rss []) md b;
+  ic_idlt : forall j b t, nth_error bs j = Some b -> In t (cur_ids b) -> (t < n)%Z;
+  ic_g2 : forall j1 j2 b1 b2 t, j1 <> j2 -> nth_error bs j1 = Some b1 -> nth_error bs j2 = Some b2 ->
+          In t (cur_ids b1) -> ~ In t (cur_ids b2);
+  ic_keys : NoDup (map fst P);
+  ic_klt : forall t j, In (t, j) P -> (t < n)%Z;
+  ic_p : forall t bid s, In (t, (bid, s)) P -> pend_ok bs t bid s;
+  ic_p3 : forall t1 t2 bid s1 s2, In (t1, (bid, s1)) P -> In (t2, (bid, s2)) P ->
+          slot_index s1 = slot_index s2 -> t1 = t2;
+  ic_p4 : forall j b sl lv pos t0, nth_error bs j = Some b -> current_rung_and_level b = Ok (sl, lv) ->
+          (pos < first_free_pos b)%nat -> nth_error sl pos = Some (t0, None) ->
+          exists t s, In (t, (j, s)) P /\ slot_index s = pos }.
+
+Definition rss_ok (rss : list rung_system) : Prop :=
+  rss <> [] /\ forall off, (off < length rss)%nat -> check_rungs (nth off rss []) = true.
+
+Lemma check_offsets_ok : forall rss mx off, check_offsets rss mx off = true ->
+  forall k, (k < length rss)%nat -> check_rungs (nth k rss []) = true.
+Proof.
+  induction rss as [|rs rss IH]; intros mx off H k Hk; simpl in *; [lia|].
+  repeat (apply andb_true_iff in H; destruct H as [H ?]).
+  destruct k as [|k]; [assumption|]. eapply IH; eauto. lia.
+Qed.
+
+Lemma check_bracket_rungs_ok : forall rss, check_bracket_rungs rss = true -> rss_ok rss.
+Proof.
+  unfold check_bracket_rungs, rss_ok. intros [|rs0 rss] H; [discriminate|].
+  split; [congruence|]. intros off Ho. eapply check_offsets_ok; eauto.
+Qed.
+
+Lemma mod_lt_len : forall (rss : list rung_system) j, rss <> [] -> (j mod length rss < length rss)%nat.
+Proof. intros rss j H. apply Nat.mod_upper_bound. destruct rss; simpl; [congruence|lia]. Qed.
+
+Lemma nth_error_snoc : forall {A} (l : list A) x j y, nth_error (l ++ [x]) j = Some y ->
+  ((j < length l)%nat /\ nth_error l j = Some y) \/ (j = length l /\ y = x).
+Proof.
+  intros A l x j y H. destruct (Nat.lt_ge_cases j (length l)) as [L|L].
+  - left. rewrite nth_error_app1 in H by exact L. auto.
+  - right. rewrite nth_error_app2 in H by exact L.
+    destruct (j - length l)%nat as [|k] eqn:E; simpl in H.
+    + inversion H. split; [lia|reflexivity].
+    + destruct k; discriminate.
+Qed.
+
+Lemma cur_ids_new : forall sys md, cur_ids (new_bracket sys md) = [].
+Proof.
+  intros [|[size lv] rest] md; unfold cur_ids, current_rung_and_level, new_bracket; simpl; [reflexivity|].
+  apply somes_repeat_none.
+Qed.
+
+Lemma pend_ok_ext : forall bs bs' t bid s,
+  pend_ok bs t bid s ->
+  (forall j b, nth_error bs j = Some b -> nth_error bs' j = Some b) ->
+  (forall j b', nth_error bs' j = Some b' -> nth_error bs j = Some b' \/ cur_ids b' = []) ->
+  pend_ok bs' t bid s.
+Proof.
+  intros bs bs' t bid s [[b [sl [lv [t0 [N [C [E1 [E2 [E3 [E4 [E5 K]]]]]]]]]]] T M] Ext Back.
+  constructor; auto. exists b, sl, lv, t0. repeat split; auto.
+  intros Z0 j b' Nj. destruct (Back _ _ Nj) as [Nj'|Em]; [eapply K; eauto|]. rewrite Em. auto.
+Qed.
+
+(* Lemma A: opening a new bracket *)
+Lemma core_new_bracket : forall rss md bs P n, rss_ok rss -> InvCore rss md bs P n ->
+  InvCore rss md (bs ++ [new_bracket (nth (length bs mod length rss) rss []) md]) P n.
+Proof.
+  intros rss md bs P n [NE CK] I. set (nb := new_bracket _ md).
+  assert (Ext : forall j b, nth_error bs j = Some b -> nth_error (bs ++ [nb]) j = Some b).
+  { intros j b H. rewrite nth_error_app1; [exact H|eapply nth_error_lt; eauto]. }
+  assert (CN : cur_ids nb = []) by apply cur_ids_new.
+  destruct I as [I1 I2 I3 I4 I5 I6 I7 I8]. constructor; auto.
+  - intros j b H. apply nth_error_snoc in H. destruct H as [[_ H]|[-> ->]]; [auto|].
+    apply binv_new. apply CK. apply mod_lt_len. exact NE.
+  - intros j b t H. apply nth_error_snoc in H. destruct H as [[_ H]|[-> ->]]; [eauto|].
+    rewrite CN. contradiction.
+  - intros j1 j2 b1 b2 t NEj H1 H2. apply nth_error_snoc in H1. apply nth_error_snoc in H2.
+    destruct H1 as [[_ H1]|[-> ->]]; [|rewrite CN; contradiction].
+    destruct H2 as [[_ H2]|[-> ->]]; [eauto|]. rewrite CN. auto.
+  - intros t bid s H. eapply pend_ok_ext; eauto.
+    intros j b' Hj. apply nth_error_snoc in Hj. destruct Hj as [[_ Hj]|[-> ->]]; auto.
+  - intros j b sl lv pos t0 H C Hp Hn. apply nth_error_snoc in H. destruct H as [[_ H]|[-> ->]]; [eauto|].
+    exfalso. unfold nb, new_bracket in Hp. destruct (nth _ rss []) as [|[? ?] ?]; simpl in Hp; lia.
+Qed.
+
+Lemma crl_bump : forall b, current_rung_and_level (bump b) = current_rung_and_level b.
+Proof. reflexivity. Qed.
+Lemma cur_ids_bump : forall b, cur_ids (bump b) = cur_ids b.
+Proof. reflexivity. Qed.
+
+Lemma in_cur_ids : forall b sl lv pos t mv, current_rung_and_level b = Ok (sl, lv) ->
+  nth_error sl pos = Some (Some t, mv) -> In t (cur_ids b).
+Proof.
+  intros b sl lv pos t mv C N. unfold cur_ids. rewrite C. apply somes_In.
+  apply nth_error_In in N. apply (in_map fst) in N. exact N.
+Qed.
+
+Lemma nodup_Zkeys_functional : forall {B} (l : list (Z * B)) a u v,
+  NoDup (map fst l) -> In (a, u) l -> In (a, v) l -> u = v.
+Proof.
+  induction l as [|[k w] l IH]; intros a u v N Hu Hv; simpl in *; [contradiction|].
+  inversion N as [|? ? Hn N']; subst.
+  destruct Hu as [Hu|Hu], Hv as [Hv|Hv].
+  - congruence.
+  - inversion Hu; subst. exfalso. apply Hn. apply (in_map fst) in Hv. exact Hv.
+  - inversion Hv; subst. exfalso. apply Hn. apply (in_map fst) in Hu. exact Hu.
+  - eapply IH; eauto.
+Qed.
+
+(* a trial waiting in a not yet handed-out slot is not pending *)
+Lemma resume_not_pending : forall rss md bs P n i b sl lv t mv,
+  InvCore rss md bs P n -> nth_error bs i = Some b -> current_rung_and_level b = Ok (sl, lv) ->
+  nth_error sl (first_free_pos b) = Some (Some t, mv) -> ~ In t (map fst P).
+Proof.
+  intros rss md bs P n i b sl lv t mv I Nb C Ns Hin.
+  apply in_map_iff in Hin. destruct Hin as [[t' [bid' s']] [E Hin]]. simpl in E. subst t'.
+  assert (Tin : In t (cur_ids b)) by (eapply in_cur_ids; eauto).
+  destruct (ic_p _ _ _ _ _ I _ _ _ Hin) as [[b2 [sl2 [lv2 [t0 [N2 [C2 [E1 [E2 [E3 [E4 [E5 K]]]]]]]]]]] _ _].
+  destruct E5 as [->| ->].
+  - exact (K eq_refl _ _ Nb Tin).
+  - assert (Tin2 : In t (cur_ids b2)) by (eapply in_cur_ids; eauto).
+    destruct (Nat.eq_dec bid' i) as [->|NEq].
+    + rewrite Nb in N2. inversion N2; subst b2. rewrite C in C2. inversion C2; subst sl2 lv2.
+      assert (CO := binv_cur_ok _ _ _ _ _ (ic_b _ _ _ _ _ I _ _ Nb) C).
+      assert (slot_index s' = first_free_pos b).
+      { eapply (nodup_somes_pos (map fst sl)); [exact (co_nodup _ _ CO)| |].
+        - rewrite nth_error_map. unfold slot, tid in *. rewrite E4. reflexivity.
+        - rewrite nth_error_map. unfold slot, tid in *. rewrite Ns. reflexivity. }
+      lia.
+    + exact (ic_g2 _ _ _ _ _ I _ _ _ _ _ NEq N2 Nb Tin2 Tin).
+Qed.
+
+(* Lemma B: handing out the first free slot of bracket i to trial t *)
+Lemma core_hand_out : forall rss md bs P n n' i b sl lv t0 mv t,
+  InvCore rss md bs P n -> nth_error bs i = Some b -> current_rung_and_level b = Ok (sl, lv) ->
+  nth_error sl (first_free_pos b) = Some (t0, mv) ->
+  ((t0 = None /\ t = n /\ n' = (n + 1)%Z) \/ (t0 = Some t /\ n' = n)) ->
+  InvCore rss md (upd bs i (bump b))
+          (P ++ [(t, (i, mkSIR (current_rung b) lv (first_free_pos b) (Some t) None))]) n'.
+Proof.
+  intros rss md bs P n n' i b sl lv t0 mv t I Nb C Ns Kind.
+  assert (Li : (i < length bs)%nat) by (eapply nth_error_lt; eauto).
+  assert (Bb := ic_b _ _ _ _ _ I _ _ Nb).
+  assert (CO := binv_cur_ok _ _ _ _ _ Bb C).
+  assert (MV : mv = None).
+  { assert (X := co_free _ _ CO _ _ (le_n _) Ns). exact X. } subst mv.
+  assert (Ls : (first_free_pos b < length sl)%nat) by (eapply nth_error_lt; eauto).
+  assert (Nn' : (n <= n')%Z) by (destruct Kind as [[_ [_ ->]]|[_ ->]]; lia).
+  assert (Tlt : (t < n')%Z).
+  { destruct Kind as [[_ [-> ->]]|[-> ->]]; [lia|]. eapply (ic_idlt _ _ _ _ _ I); eauto. eapply in_cur_ids; eauto. }
+  assert (Tnew : ~ In t (map fst P)).
+  { destruct Kind as [[_ [-> _]]|[-> _]].
+    - intro H. apply in_map_iff in H. destruct H as [[t' j] [E H]]. simpl in E. subst t'.
+      apply (ic_klt _ _ _ _ _ I) in H. lia.
+    - eapply resume_not_pending; eauto. }
+  (* brackets after the update *)
+  assert (Get : forall j bj', nth_error (upd bs i (bump b)) j = Some bj' ->
+            exists bj, nth_error bs j = Some bj /\ current_rung_and_level bj' = current_rung_and_level bj /\
+                       cur_ids bj' = cur_ids bj /\ (first_free_pos bj <= first_free_pos bj')%nat /\
+                       current_rung bj' = current_rung bj /\ ((j = i /\ bj' = bump b /\ bj = b) \/ (j <> i /\ bj' = bj))).
+  { intros j bj' H. apply nth_error_upd in H. destruct H as [[<- ->]|[NEq H]].
+    - exists b. repeat split; auto. simpl. lia.
+    - exists bj'. repeat split; auto. }
+  set (s := mkSIR (current_rung b) lv (first_free_pos b) (Some t) None).
+  assert (Ni : nth_error (upd bs i (bump b)) i = Some (bump b)) by (apply nth_error_upd_eq; exact Li).
+  destruct I as [I1 I2 I3 I4 I5 I6 I7 I8]. constructor.
+  - intros j bj' H. destruct (Get _ _ H) as [bj [Hj [_ [_ [_ [_ [[-> [-> ->]]|[_ ->]]]]]]]]; [|auto].
+    eapply binv_bump; eauto.
+  - intros j bj' x H Hx. destruct (Get _ _ H) as [bj [Hj [_ [CI _]]]]. rewrite CI in Hx.
+    specialize (I2 _ _ _ Hj Hx). lia.
+  - intros j1 j2 b1 b2 x NEq H1 H2 Hx1 Hx2.
+    destruct (Get _ _ H1) as [c1 [G1 [_ [CI1 _]]]]. destruct (Get _ _ H2) as [c2 [G2 [_ [CI2 _]]]].
+    rewrite CI1 in Hx1. rewrite CI2 in Hx2. eapply I3; eauto.
+  - rewrite map_app. simpl. apply nodup_app_intro; [exact I4|constructor; [simpl; tauto|constructor]|].
+    intros x Hx [<-|[]]. contradiction.
+  - intros x j H. apply in_app_or in H. destruct H as [H|[H|[]]]; [apply I5 in H; lia|]. inversion H; subst. exact Tlt.
+  - intros x bid sx H. apply in_app_or in H. destruct H as [H|[H|[]]].
+    + destruct (I6 _ _ _ H) as [[b2 [sl2 [lv2 [t2 [N2 [C2 [E1 [E2 [E3 [E4 [E5 K]]]]]]]]]]] T M].
+      constructor; auto.
+      destruct (Nat.eq_dec bid i) as [->|NEq].
+      * rewrite Nb in N2. inversion N2; subst b2.
+        exists (bump b), sl2, lv2, t2. rewrite crl_bump. repeat split; auto.
+        { simpl. lia. }
+        intros Z0 j bj' Hj. destruct (Get _ _ Hj) as [bj [Hj' [_ [CI _]]]]. rewrite CI. eapply K; eauto.
+      * exists b2, sl2, lv2, t2. repeat split; auto.
+        { rewrite nth_error_upd_neq by congruence. exact N2. }
+        intros Z0 j bj' Hj. destruct (Get _ _ Hj) as [bj [Hj' [_ [CI _]]]]. rewrite CI. eapply K; eauto.
+    + inversion H; subst x bid sx. subst s. constructor; [|reflexivity|reflexivity].
+      exists (bump b), sl, lv, t0. rewrite crl_bump. repeat split; auto.
+      * destruct Kind as [[-> _]|[-> _]]; auto.
+      * intros -> j bj' Hj Hin. destruct (Get _ _ Hj) as [bj [Hj' [_ [CI _]]]]. rewrite CI in Hin.
+        destruct Kind as [[_ [-> _]]|[Ab _]]; [|discriminate].
+        specialize (I2 _ _ _ Hj' Hin). lia.
+  - intros t1 t2 bid s1 s2 H1 H2 Es.
+    apply in_app_or in H1. apply in_app_or in H2.
+    destruct H1 as [H1|[H1|[]]], H2 as [H2|[H2|[]]].
+    + eapply I7; eauto.
+    + inversion H2; subst t2 bid s2. simpl in Es.
+      destruct (I6 _ _ _ H1) as [[b2 [sl2 [lv2 [t3 [N2 [C2 [E1 [E2 _]]]]]]]] _ _].
+      rewrite Nb in N2. inversion N2; subst b2. lia.
+    + inversion H1; subst t1 bid s1. simpl in Es.
+      destruct (I6 _ _ _ H2) as [[b2 [sl2 [lv2 [t3 [N2 [C2 [E1 [E2 _]]]]]]]] _ _].
+      rewrite Nb in N2. inversion N2; subst b2. lia.
+    + inversion H1; inversion H2; subst. reflexivity.
+  - intros j bj' sl2 lv2 pos t2 H C2 Hp Hn.
+    destruct (Get _ _ H) as [bj [Hj [CE [_ [_ [_ [[-> [-> ->]]|[NEq ->]]]]]]]].
+    + rewrite crl_bump, C in C2. inversion C2; subst sl2 lv2. simpl in Hp.
+      destruct (Nat.eq_dec pos (first_free_pos b)) as [->|NEp].
+      * exists t, s. split; [apply in_or_app; right; left; reflexivity|reflexivity].
+      * destruct (I8 i b sl lv pos t2 Nb C) as [x [sx [Hx Ex]]]; [lia|exact Hn|].
+        exists x, sx. split; [apply in_or_app; left; exact Hx|exact Ex].
+    + destruct (I8 j bj sl2 lv2 pos t2 Hj C2 Hp Hn) as [x [sx [Hx Ex]]].
+      exists x, sx. split; [apply in_or_app; left; exact Hx|exact Ex].
+Qed.
+
+Lemma remove_key_In : forall t (P : list (Z * job)) x, In x (remove_key t P) <-> In x P /\ fst x <> t.
+Proof.
+  induction P as [|[k w] P IH]; intro x; simpl; [tauto|].
+  destruct (Z.eqb k t) eqn:E.
+  - apply Z.eqb_eq in E. subst k. rewrite IH. split.
+    + intros [H1 H2]. auto.
+    + intros [[H1|H1] H2]; [subst x; simpl in H2; congruence|auto].
+  - apply Z.eqb_neq in E. simpl. rewrite IH. split.
+    + intros [H|[H1 H2]]; [subst x; simpl; auto|auto].
+    + intros [[H1|H1] H2]; auto.
+Qed.
+
+Lemma remove_key_nodup : forall t (P : list (Z * job)), NoDup (map fst P) -> NoDup (map fst (remove_key t P)).
+Proof.
+  induction P as [|[k w] P IH]; intro N; simpl; [constructor|]. inversion N; subst.
+  destruct (Z.eqb k t); [auto|]. simpl. constructor; [|auto].
+  intro H. apply H1. apply in_map_iff in H. destruct H as [x [E H]]. apply remove_key_In in H.
+  apply in_map_iff. exists x. tauto.
+Qed.
+
+Lemma lookup_In : forall t (P : list (Z * job)) j, lookup t P = Some j -> In (t, j) P.
+Proof.
+  induction P as [|[k w] P IH]; intros j H; simpl in *; [discriminate|].
+  destruct (Z.eqb k t) eqn:E; [apply Z.eqb_eq in E; inversion H; subst; auto|auto].
+Qed.
+
+Lemma lookup_None : forall t (P : list (Z * job)), lookup t P = None -> ~ In t (map fst P).
+Proof.
+  induction P as [|[k w] P IH]; intros H; simpl in *; [tauto|].
+  destruct (Z.eqb k t) eqn:E; [discriminate|]. apply Z.eqb_neq in E. intros [X|X]; [congruence|]. exact (IH H X).
+Qed.
+
+Lemma lookup_remove : forall t (P : list (Z * job)), lookup t (remove_key t P) = None.
+Proof.
+  induction P as [|[k w] P IH]; simpl; [reflexivity|].
+  destruct (Z.eqb k t) eqn:E; [exact IH|]. simpl. rewrite E. exact IH.
+Qed.
+
+(* Lemma C: a pending job is answered (result at the milestone, or failure = NaN) *)
+Lemma core_answer : forall rss md bs P n t bid s v b b' out,
+  rss_ok rss -> InvCore rss md bs P n -> In (t, (bid, s)) P -> nth_error bs bid = Some b ->
+  bracket_on_result b (mkSIR (rung_index s) (level s) (slot_index s) (trial_id s) (Some v)) = Ok (b', out) ->
+  InvCore rss md (upd bs bid b') (remove_key t P) n.
+Proof.
+  intros rss md bs P n t bid s v b b' out [NE CKs] I Hin Nb R.
+  set (r := mkSIR (rung_index s) (level s) (slot_index s) (trial_id s) (Some v)) in *.
+  destruct (ic_p _ _ _ _ _ I _ _ _ Hin) as [[b2 [sl [lv [t0 [N2 [C [E1 [E2 [E3 [E4 [E5 K]]]]]]]]]]] T M].
+  rewrite Nb in N2. inversion N2; subst b2. clear N2.
+  assert (Lb : (bid < length bs)%nat) by (eapply nth_error_lt; eauto).
+  assert (CK : check_rungs (nth (bid mod length rss) rss []) = true) by (apply CKs, mod_lt_len, NE).
+  assert (Bb := ic_b _ _ _ _ _ I _ _ Nb).
+  assert (TID : trial_id r = Some t) by exact T.
+  assert (FRESH : nth_error sl (slot_index r) = Some (None, None) -> ~ In t (cur_ids b)).
+  { intro X. simpl in X. rewrite E4 in X. inversion X; subst t0. eapply K; eauto. }
+  assert (Bb' := binv_answer _ _ _ _ _ _ _ _ _ CK Bb C R TID FRESH).
+  assert (CIA := cur_ids_answer _ _ _ _ _ _ _ _ _ CK Bb C R TID FRESH).
+  assert (Telse : forall j b2, j <> bid -> nth_error bs j = Some b2 -> ~ In t (cur_ids b2)).
+  { intros j b2 NEq Nj. destruct E5 as [->| ->]; [eapply K; eauto|].
+    assert (In t (cur_ids b)) by (eapply in_cur_ids; eauto).
+    eapply (ic_g2 _ _ _ _ _ I bid j); eauto. }
+  destruct (bor_inv _ _ _ _ _ _ C R) as [_ [_ [_ [_ [v' [MV' Cases]]]]]].
+  simpl in MV'. inversion MV'; subst v'. clear MV'. cbv zeta in Cases. rewrite TID in Cases. simpl slot_index in Cases.
+  set (sl' := upd sl (slot_index s) (Some t, Some v)) in *.
+  destruct (crl_inv _ _ _ C) as [Nth _].
+  assert (Lc : (current_rung b < length (rungs b))%nat) by (eapply nth_error_lt; eauto).
+  (* the shape of b' that matters for the pending table *)
+  assert (Shape : (is_full sl' (first_free_pos b) = false /\ current_rung_and_level b' = Ok (sl', lv) /\
+                   first_free_pos b' = first_free_pos b /\ current_rung b' = current_rung b)
+                  \/ (is_full sl' (first_free_pos b) = true /\ first_free_pos b' = 0%nat)).
+  { destruct Cases as [[F [-> _]]|[[F [L [-> _]]]|[F [nl [ms [vals [top [rem [_ [_ [_ [-> _]]]]]]]]]]]].
+    - left. split; [exact F|]. split; [|split; reflexivity]. apply crl_of_nth. cbn [rungs current_rung].
+      apply nth_error_upd_eq. exact Lc.
+    - right. auto.
+    - right. auto. }
+  assert (Get : forall j bj', nth_error (upd bs bid b') j = Some bj' ->
+                (j = bid /\ bj' = b') \/ (j <> bid /\ nth_error bs j = Some bj')).
+  { intros j bj' H. apply nth_error_upd in H. destruct H as [[<- ->]|[N H]]; [left; auto|right; split; [congruence|exact H]]. }
+  assert (Sl'pos : nth_error sl' (slot_index s) = Some (Some t, Some v)).
+  { unfold sl'. apply nth_error_upd_eq. eapply nth_error_lt; eauto. }
+  assert (Knew : forall t2, t2 <> t -> (forall j b'', nth_error bs j = Some b'' -> ~ In t2 (cur_ids b'')) ->
+                 forall j bj', nth_error (upd bs bid b') j = Some bj' -> ~ In t2 (cur_ids bj')).
+  { intros t2 NEt K2 j bj' Hj Hx. destruct (Get _ _ Hj) as [[-> ->]|[_ Hj']]; [|eapply K2; eauto].
+    destruct (CIA _ Hx) as [Hx'|Hx']; [eapply K2; eauto|congruence]. }
+  destruct I as [I1 I2 I3 I4 I5 I6 I7 I8]. constructor.
+  - intros j bj' H. destruct (Get _ _ H) as [[-> ->]|[_ H']]; auto.
+  - intros j bj' x H Hx. destruct (Get _ _ H) as [[-> ->]|[_ H']]; [|eauto].
+    destruct (CIA _ Hx) as [Hx' | ->]; eauto.
+  - intros j1 j2 b1 b2 x NEq H1 H2 Hx1 Hx2.
+    destruct (Get _ _ H1) as [[-> ->]|[N1 H1']]; destruct (Get _ _ H2) as [[-> ->]|[N2 H2']].
+    + congruence.
+    + destruct (CIA _ Hx1) as [Hx' | ->];
+        [exact (I3 bid j2 b b2 x (not_eq_sym N2) Nb H2' Hx' Hx2)|exact (Telse j2 b2 N2 H2' Hx2)].
+    + destruct (CIA _ Hx2) as [Hx' | ->];
+        [exact (I3 j1 bid b1 b x N1 H1' Nb Hx1 Hx')|exact (Telse j1 b1 N1 H1' Hx1)].
+    + exact (I3 _ _ _ _ _ NEq H1' H2' Hx1 Hx2).
+  - apply remove_key_nodup. exact I4.
+  - intros x j H. apply remove_key_In in H. destruct H as [H _]. eauto.
+  - intros t2 bid2 s2 H. apply remove_key_In in H. destruct H as [H NEt]. simpl in NEt.
+    destruct (I6 _ _ _ H) as [[b3 [sl3 [lv3 [t3 [N3 [C3 [F1 [F2 [F3 [F4 [F5 K3]]]]]]]]]]] T3 M3].
+    constructor; auto.
+    destruct (Nat.eq_dec bid2 bid) as [-> | NEq].
+    + rewrite Nb in N3. inversion N3; subst b3. rewrite C in C3. inversion C3; subst sl3 lv3.
+      assert (NEp : slot_index s2 <> slot_index s).
+      { intro X. apply NEt. eapply I7; eauto. }
+      assert (Sl2 : nth_error sl' (slot_index s2) = Some (t3, None)).
+      { unfold sl'. rewrite nth_error_upd_neq by congruence. exact F4. }
+      destruct Shape as [[F [C' [FF CR]]]|[F _]].
+      * exists b', sl', lv, t3. repeat split; auto; try congruence.
+        { apply nth_error_upd_eq. exact Lb. }
+        intros Z0. apply Knew; [exact NEt|exact (K3 Z0)].
+      * exfalso. destruct (is_full_spec _ _ F) as [_ Occ]. apply nth_error_In in Sl2.
+        apply (Occ _ Sl2). reflexivity.
+    + exists b3, sl3, lv3, t3. repeat split; auto.
+      { rewrite nth_error_upd_neq by congruence. exact N3. }
+      intros Z0. apply Knew; [exact NEt|exact (K3 Z0)].
+  - intros t1 t2 bid2 s1 s2 H1 H2. apply remove_key_In in H1. apply remove_key_In in H2.
+    destruct H1 as [H1 _]. destruct H2 as [H2 _]. eapply I7; eauto.
+  - intros j bj' sl2 lv2 pos t2 H C2 Hp Hn. destruct (Get _ _ H) as [[-> ->]|[NEq H']].
+    + destruct Shape as [[F [C' [FF CR]]]|[F FF]]; [|lia].
+      rewrite C' in C2. inversion C2; subst sl2 lv2.
+      assert (NEp : pos <> slot_index s).
+      { intros ->. unfold slot, tid in *. rewrite Sl'pos in Hn. discriminate. }
+      unfold sl' in Hn. rewrite nth_error_upd_neq in Hn by congruence.
+      destruct (I8 bid b sl lv pos t2 Nb C) as [x [sx [Hx Ex]]]; [lia|exact Hn|].
+      exists x, sx. split; [|exact Ex]. apply remove_key_In. split; [exact Hx|]. simpl. intros ->.
+      assert (X := nodup_Zkeys_functional _ _ _ _ I4 Hx Hin). inversion X; subst. congruence.
+    + destruct (I8 j bj' sl2 lv2 pos t2 H' C2 Hp Hn) as [x [sx [Hx Ex]]].
+      exists x, sx. split; [|exact Ex]. apply remove_key_In. split; [exact Hx|]. simpl. intros ->.
+      assert (X := nodup_Zkeys_functional _ _ _ _ I4 Hx Hin). inversion X; subst. congruence.
+Qed.
+
+(* ======================================================================== *)
+(* Part 5: bracket manager and scheduler shell                               *)
+(* ======================================================================== *)
+
+Definition has_free_slot (b : bracket) : bool :=
+  match next_free_slot b with Ok (_, Some _) => true | _ => false end.
+
+Record Inv (rss : list rung_system) (md : mode) (st : shell) : Prop := mkInv {
+  iv_rs : m_rs (s_mgr st) = rss;
+  iv_mode : m_mode (s_mgr st) = md;
+  iv_off : m_offsets (s_mgr st) =
+           map (fun j => (j mod length rss)%nat) (seq 0 (length (m_brackets (s_mgr st))));
+  iv_prim : (m_primary (s_mgr st) < length (m_brackets (s_mgr st)))%nat;
+  iv_lt : forall j b, nth_error (m_brackets (s_mgr st)) j = Some b -> (j < m_primary (s_mgr st))%nat ->
+          is_bracket_complete b = true;
+  iv_pc : forall b, nth_error (m_brackets (s_mgr st)) (m_primary (s_mgr st)) = Some b ->
+          is_bracket_complete b = false;
+  iv_core : InvCore rss md (m_brackets (s_mgr st)) (s_pending st) (s_ntrials st) }.
+
+Lemma nfs_spec : forall sys md b, BInv sys md b ->
+  (next_free_slot b = Ok (b, None) /\ has_free_slot b = false) \/
+  (exists sl lv t0, current_rung_and_level b = Ok (sl, lv) /\
+     nth_error sl (first_free_pos b) = Some (t0, None) /\ has_free_slot b = true /\
+     next_free_slot b = Ok (bump b, Some (mkSIR (current_rung b) lv (first_free_pos b) t0 None))).
+Proof.
+  intros sys md b B. unfold has_free_slot, next_free_slot.
+  destruct (is_bracket_complete b) eqn:E; [left; auto|].
+  destruct (binv_crl _ _ _ B E) as [sl [lv C]]. rewrite C.
+  destruct (nth_error sl (first_free_pos b)) as [[t0 mv]|] eqn:N; [|left; auto].
+  assert (CO := binv_cur_ok _ _ _ _ _ B C).
+  assert (X := co_free _ _ CO _ _ (le_n _) N). simpl in X. subst mv.
+  right. exists sl, lv, t0. auto.
+Qed.
+
+Lemma try_spec : forall md bs ids,
+  (forall i, In i ids -> exists b sys, nth_error bs i = Some b /\ BInv sys md b) ->
+  (try_brackets bs ids = Ok None /\
+   forall i b, In i ids -> nth_error bs i = Some b -> has_free_slot b = false) \/
+  (exists i b sl lv t0, In i ids /\ nth_error bs i = Some b /\ current_rung_and_level b = Ok (sl, lv) /\
+     nth_error sl (first_free_pos b) = Some (t0, None) /\ has_free_slot b = true /\
+     try_brackets bs ids =
+       Ok (Some (upd bs i (bump b), i, mkSIR (current_rung b) lv (first_free_pos b) t0 None))).
+Proof.
+  intros md bs. induction ids as [|i ids IH]; intro H; simpl.
+  - left. split; [reflexivity|]. intros i b [].
+  - destruct (H i (or_introl eq_refl)) as [b [sys [Nb Bb]]]. rewrite Nb.
+    destruct (nfs_spec _ _ _ Bb) as [[E HF]|[sl [lv [t0 [C [N [HF E]]]]]]]; rewrite E.
+    + destruct IH as [[E2 A]|[i2 [b2 [sl2 [lv2 [t2 [I2 [N2 [C2 [S2 [HF2 E2]]]]]]]]]]].
+      * intros j Hj. apply H. right. exact Hj.
+      * left. split; [exact E2|]. intros j bj [<-|Hj] Nj; [congruence|eauto].
+      * right. exists i2, b2, sl2, lv2, t2. repeat split; auto.
+    + right. exists i, b, sl, lv, t0. repeat split; auto.
+Qed.
+
+Lemma nfs_new : forall sys md, check_rungs sys = true ->
+  exists sl lv, current_rung_and_level (new_bracket sys md) = Ok (sl, lv) /\
+    nth_error sl (first_free_pos (new_bracket sys md)) = Some (None, None) /\
+    is_bracket_complete (new_bracket sys md) = false /\
+    next_free_slot (new_bracket sys md) =
+      Ok (bump (new_bracket sys md),
+          Some (mkSIR (current_rung (new_bracket sys md)) lv (first_free_pos (new_bracket sys md)) None None)).
+Proof.
+  intros sys md CK. destruct (check_rungs_spec _ CK) as [NE [Pos _]].
+  destruct sys as [|[size lv] rest]; [congruence|].
+  assert (1 <= size)%nat by (apply (Pos 0%nat size lv); reflexivity).
+  destruct size as [|size]; [lia|].
+  exists (repeat (None, None) (S size)), lv. repeat split.
+Qed.
+
+Lemma seq_snoc : forall n, seq 0 (S n) = seq 0 n ++ [n].
+Proof. intro n. rewrite seq_S. reflexivity. Qed.
+
+Lemma lookup_not_in : forall t (P : list (Z * job)), ~ In t (map fst P) -> lookup t P = None.
+Proof.
+  induction P as [|[k w] P IH]; intro H; simpl in *; [reflexivity|].
+  destruct (Z.eqb k t) eqn:E; [apply Z.eqb_eq in E; tauto|]. apply IH. tauto.
+Qed.
+
+(* ---- a request for work --------------------------------------------------- *)
+Lemma suggest_inv : forall rss md st, rss_ok rss -> Inv rss md st ->
+  exists st' sg bid s m',
+    suggest st true = Ok (st', sg) /\ Inv rss md st' /\
+    next_job (s_mgr st) = Ok (m', (bid, s)) /\ s_mgr st' = m' /\
+    (m_primary (s_mgr st) <= bid)%nat /\
+    (* a new bracket is opened exactly when no open bracket has a free slot *)
+    ((length (m_brackets m') = length (m_brackets (s_mgr st)) /\ (bid < length (m_brackets (s_mgr st)))%nat /\
+      (exists b, nth_error (m_brackets (s_mgr st)) bid = Some b /\ has_free_slot b = true))
+     \/ (length (m_brackets m') = S (length (m_brackets (s_mgr st))) /\ bid = length (m_brackets (s_mgr st)) /\
+         forall j b, (m_primary (s_mgr st) <= j)%nat -> nth_error (m_brackets (s_mgr st)) j = Some b ->
+                     has_free_slot b = false)) /\
+    (* the job is a slot of the rung the bracket is filling *)
+    (exists b', nth_error (m_brackets m') bid = Some b' /\ rung_index s = current_rung b' /\
+                is_bracket_complete b' = false).
+Proof.
+  intros rss md [[rs md0 bs offs p] P rem n] OK I.
+  destruct I as [I1 I2 I3 I4 I5 I6 I7]. cbn [s_mgr s_pending s_ntrials s_removable m_rs m_mode m_brackets m_offsets m_primary] in *.
+  subst rs md0. destruct OK as [NE CKs].
+  assert (OK : rss_ok rss) by (split; assumption).
+  unfold suggest, next_job. cbn [s_mgr s_pending s_ntrials s_removable m_rs m_mode m_brackets m_offsets m_primary].
+  destruct (try_spec md bs (seq p (length bs - p))) as [[E NoFree]|[i [b [sl [lv [t0 [Ii [Nb [C [Ns [HF E]]]]]]]]]]].
+  { intros i Hi. apply in_seq in Hi. destruct (nth_error bs i) as [b|] eqn:Nb.
+    - exists b, (nth (i mod length rss) rss []). split; [reflexivity|]. eapply ic_b; eauto.
+    - apply nth_error_None in Nb. lia. }
+  - (* no open bracket accepts a job: a new bracket *)
+    rewrite E. unfold create_new_bracket. cbn [s_mgr m_rs m_mode m_brackets m_offsets m_primary].
+    set (sys := nth (length bs mod length rss) rss []).
+    assert (CK : check_rungs sys = true) by (apply CKs, mod_lt_len, NE).
+    set (nb := new_bracket sys md).
+    rewrite nth_error_app2 by lia. rewrite Nat.sub_diag. cbn [nth_error].
+    destruct (nfs_new sys md CK) as [sl [lv [C [Ns [NC Enfs]]]]]. fold nb in C, Ns, NC, Enfs. rewrite Enfs.
+    assert (Core1 := core_new_bracket _ _ _ _ _ OK I7). fold sys nb in Core1.
+    assert (Nnb : nth_error (bs ++ [nb]) (length bs) = Some nb).
+    { rewrite nth_error_app2 by lia. rewrite Nat.sub_diag. reflexivity. }
+    assert (LK : lookup n P = None).
+    { apply lookup_not_in. intro H. apply in_map_iff in H. destruct H as [[k j] [Ek H]]. simpl in Ek. subst k.
+      apply (ic_klt _ _ _ _ _ I7) in H. lia. }
+    cbn [trial_id rung_index level slot_index metric_val]. rewrite LK. cbn [is_none].
+    assert (Core2 := core_hand_out _ _ _ _ _ (n + 1)%Z _ _ _ _ _ _ n Core1 Nnb C Ns
+                       (or_introl (conj eq_refl (conj eq_refl eq_refl)))).
+    eexists _, _, _, _, _. split; [reflexivity|]. split; [|split; [reflexivity|split; [reflexivity|split; [lia|split]]]].
+    + constructor; cbn [s_mgr s_pending s_ntrials m_rs m_mode m_brackets m_offsets m_primary set_brackets]; auto.
+      * rewrite I3, upd_length, app_length. simpl. rewrite Nat.add_1_r, seq_snoc, map_app. reflexivity.
+      * rewrite upd_length, app_length. simpl. lia.
+      * intros j bj H Hj. rewrite nth_error_upd_neq in H by lia. rewrite nth_error_app1 in H by lia. eauto.
+      * intros bj H. rewrite nth_error_upd_neq in H by lia. rewrite nth_error_app1 in H by lia. eauto.
+    + right. cbn [m_brackets set_brackets]. rewrite upd_length, app_length. simpl. split; [lia|]. split; [reflexivity|].
+      intros j bj Hj Nj. eapply NoFree; eauto. apply in_seq. apply nth_error_lt in Nj. lia.
+    + exists (bump nb). cbn [m_brackets set_brackets]. split; [apply nth_error_upd_eq; rewrite app_length; simpl; lia|].
+      split; [reflexivity|exact NC].
+  - (* an open bracket has a free slot *)
+    rewrite E. apply in_seq in Ii.
+    assert (Li : (i < length bs)%nat) by (eapply nth_error_lt; eauto).
+    destruct (crl_inv _ _ _ C) as [_ NC].
+    assert (Fin : exists b', nth_error (upd bs i (bump b)) i = Some b' /\ current_rung b = current_rung b' /\
+                             is_bracket_complete b' = false).
+    { exists (bump b). split; [apply nth_error_upd_eq; exact Li|]. split; [reflexivity|exact NC]. }
+    assert (PrimInv : forall P' n', InvCore rss md (upd bs i (bump b)) P' n' ->
+              Inv rss md (mkS (set_brackets (mkM rss md bs offs p) (upd bs i (bump b))) P' rem n')).
+    { intros P' n' Core. constructor; cbn [s_mgr s_pending s_ntrials m_rs m_mode m_brackets m_offsets m_primary set_brackets]; auto.
+      - rewrite upd_length. exact I3.
+      - rewrite upd_length. exact I4.
+      - intros j bj H Hj. apply nth_error_upd in H. destruct H as [[<- ->]|[_ H]]; [|eauto].
+        rewrite <- (I5 _ _ Nb Hj). reflexivity.
+      - intros bj H. apply nth_error_upd in H. destruct H as [[<- ->]|[_ H]]; [|eauto]. exact NC. }
+    cbn [trial_id rung_index level slot_index metric_val]. destruct t0 as [t|].
+    + (* a promoted trial is resumed *)
+      assert (LK : lookup t P = None).
+      { apply lookup_not_in. eapply resume_not_pending; eauto. }
+      rewrite LK. cbn [is_none].
+      assert (Core2 := core_hand_out _ _ _ _ _ n _ _ _ _ _ _ t I7 Nb C Ns (or_intror (conj eq_refl eq_refl))).
+      eexists _, _, _, _, _. split; [reflexivity|]. split; [apply PrimInv; exact Core2|].
+      split; [reflexivity|split; [reflexivity|split; [lia|split]]].
+      * left. cbn [m_brackets set_brackets]. rewrite upd_length. split; [reflexivity|]. split; [exact Li|]. eauto.
+      * exact Fin.
+    + (* a new trial is started *)
+      assert (LK : lookup n P = None).
+      { apply lookup_not_in. intro H. apply in_map_iff in H. destruct H as [[k j] [Ek H]]. simpl in Ek. subst k.
+        apply (ic_klt _ _ _ _ _ I7) in H. lia. }
+      rewrite LK. cbn [is_none].
+      assert (Core2 := core_hand_out _ _ _ _ _ (n + 1)%Z _ _ _ _ _ _ n I7 Nb C Ns
+                         (or_introl (conj eq_refl (conj eq_refl eq_refl)))).
+      eexists _, _, _, _, _. split; [reflexivity|]. split; [apply PrimInv; exact Core2|].
+      split; [reflexivity|split; [reflexivity|split; [lia|split]]].
+      * left. cbn [m_brackets set_brackets]. rewrite upd_length. split; [reflexivity|]. split; [exact Li|]. eauto.
+      * exact Fin.
+Qed.
+
+Lemma advance_spec : forall fuel bs p last,
+  (p <= last)%nat -> (last < length bs)%nat -> (last - p < fuel)%nat ->
+  let p' := advance_primary fuel bs p last in
+  (p <= p' <= last)%nat /\
+  (forall j b, (p <= j < p')%nat -> nth_error bs j = Some b -> is_bracket_complete b = true) /\
+  (forall b, nth_error bs p' = Some b -> is_bracket_complete b = true -> p' = last).
+Proof.
+  induction fuel as [|f IH]; intros bs p last H1 H2 H3; [lia|]. simpl.
+  destruct (nth_error bs p) as [b|] eqn:Nb.
+  2:{ apply nth_error_None in Nb. lia. }
+  destruct (is_bracket_complete b) eqn:Cb; simpl.
+  - destruct (Nat.ltb p last) eqn:L.
+    + apply Nat.ltb_lt in L. destruct (IH bs (S p) last) as [A [B C]]; try lia.
+      split; [lia|]. split; [|exact C].
+      intros j bj Hj Nj. destruct (Nat.eq_dec j p) as [->|NE]; [congruence|]. apply (B j); [lia|exact Nj].
+    + apply Nat.ltb_ge in L. split; [lia|]. split; [intros; lia|]. intros; lia.
+  - split; [lia|]. split; [intros; lia|]. intros b0 N0 C0. congruence.
+Qed.
+
+Lemma complete_new_bracket : forall sys md, check_rungs sys = true ->
+  is_bracket_complete (new_bracket sys md) = false.
+Proof. intros sys md CK. destruct (nfs_new sys md CK) as [_ [_ [_ [_ [X _]]]]]. exact X. Qed.
+
+Lemma mkInv' : forall rss md bs offs p P rem n,
+  offs = map (fun j => (j mod length rss)%nat) (seq 0 (length bs)) -> (p < length bs)%nat ->
+  (forall j b, nth_error bs j = Some b -> (j < p)%nat -> is_bracket_complete b = true) ->
+  (forall b, nth_error bs p = Some b -> is_bracket_complete b = false) ->
+  InvCore rss md bs P n -> Inv rss md (mkS (mkM rss md bs offs p) P rem n).
+Proof. intros. constructor; auto. Qed.
+
+(* ---- a pending job is answered -------------------------------------------- *)
+Lemma answer_inv : forall rss md st t bid s v, rss_ok rss -> Inv rss md st ->
+  lookup t (s_pending st) = Some (bid, s) ->
+  exists st', shell_on_result st bid (mkSIR (rung_index s) (level s) (slot_index s) (trial_id s) (Some v)) = Ok st' /\
+    Inv rss md (mkS (s_mgr st') (remove_key t (s_pending st')) (s_removable st') (s_ntrials st')) /\
+    (exists b' sl' lv', nth_error (m_brackets (s_mgr st')) bid = Some b' /\
+        nth_error (rungs b') (rung_index s) = Some (Filled sl' lv') /\
+        nth_error sl' (slot_index s) = Some (Some t, Some v)).
+Proof.
+  intros rss md [[rs md0 bs offs p] P rem n] t bid s v OK I LK.
+  destruct I as [I1 I2 I3 I4 I5 I6 I7].
+  cbn [s_mgr s_pending s_ntrials s_removable m_rs m_mode m_brackets m_offsets m_primary] in *.
+  subst rs md0. assert (OK' := OK). destruct OK' as [NE CKs].
+  apply lookup_In in LK.
+  destruct (ic_p _ _ _ _ _ I7 _ _ _ LK) as [[b [sl [lv [t0 [Nb [C [E1 [E2 [E3 [E4 [E5 K]]]]]]]]]]] T M].
+  destruct (crl_inv _ _ _ C) as [Nth NC].
+  assert (Lb : (bid < length bs)%nat) by (eapply nth_error_lt; eauto).
+  assert (Pb : (p <= bid)%nat).
+  { destruct (Nat.le_gt_cases p bid) as [X|X]; [exact X|]. rewrite (I5 _ _ Nb X) in NC. discriminate. }
+  assert (Bb := ic_b _ _ _ _ _ I7 _ _ Nb).
+  set (r := mkSIR (rung_index s) (level s) (slot_index s) (trial_id s) (Some v)).
+  destruct (bor_ok b r sl lv t0 v C E1 E2 E3 E4) as [b' [out R]].
+  { unfold r. cbn [trial_id]. rewrite T. exact E5. } { reflexivity. }
+  { intros e Ne. eapply (bi_fut _ _ _ Bb); [|exact Ne]. lia. }
+  assert (Core := core_answer _ _ _ _ _ _ _ _ _ _ _ _ OK I7 LK Nb R).
+  (* the answered slot *)
+  assert (Slot : exists sl' lv', nth_error (rungs b') (rung_index s) = Some (Filled sl' lv') /\
+                                 nth_error sl' (slot_index s) = Some (Some t, Some v)).
+  { destruct (bor_inv _ _ _ _ _ _ C R) as [_ [_ [_ [_ [v' [MV' Cases]]]]]].
+    simpl in MV'. inversion MV'; subst v'. cbv zeta in Cases. simpl trial_id in Cases. rewrite T in Cases.
+    simpl slot_index in Cases. rewrite E1.
+    assert (Lc : (current_rung b < length (rungs b))%nat) by (eapply nth_error_lt; eauto).
+    exists (upd sl (slot_index s) (Some t, Some v)), lv.
+    split; [|apply nth_error_upd_eq; eapply nth_error_lt; eauto].
+    destruct Cases as [[_ [-> _]]|[[_ [_ [-> _]]]|[_ [nl [ms [vals [top [rem0 [_ [_ [_ [-> _]]]]]]]]]]]];
+      cbn [rungs]; try (rewrite nth_error_upd_neq by lia); apply nth_error_upd_eq; exact Lc. }
+  destruct Slot as [sl' [lv' [S1 S2]]].
+  assert (CompOther : forall j bj, j <> bid -> nth_error (upd bs bid b') j = Some bj -> nth_error bs j = Some bj).
+  { intros j bj NEq H. rewrite nth_error_upd_neq in H by congruence. exact H. }
+  unfold shell_on_result, mgr_on_result.
+  cbn [s_mgr s_pending s_ntrials s_removable m_rs m_mode m_brackets m_offsets m_primary].
+  replace (Nat.leb p bid && Nat.ltb bid (length bs)) with true
+    by (symmetry; apply andb_true_iff; split; [apply Nat.leb_le|apply Nat.ltb_lt]; lia).
+  cbn [negb]. rewrite Nb. fold r. rewrite R.
+  set (bs' := upd bs bid b') in *.
+  assert (Lbs' : length bs' = length bs) by apply upd_length.
+  assert (Nb' : nth_error bs' bid = Some b') by (apply nth_error_upd_eq; exact Lb).
+  destruct (Nat.eqb bid p) eqn:Ep.
+  - apply Nat.eqb_eq in Ep. subst bid.
+    destruct (advance_spec (length bs) bs' p (length bs - 1)) as [A [Bc Cl]]; try lia.
+    set (p' := advance_primary (length bs) bs' p (length bs - 1)) in *.
+    cbn [set_brackets set_primary m_rs m_mode m_brackets m_offsets m_primary].
+    destruct (nth_error bs' p') as [bp|] eqn:Np.
+    2:{ apply nth_error_None in Np. lia. }
+    assert (Below : forall j bj, nth_error bs' j = Some bj -> (j < p')%nat -> is_bracket_complete bj = true).
+    { intros j bj Nj Hj. destruct (Nat.lt_ge_cases j p) as [X|X].
+      - eapply I5; [|exact X]. apply CompOther; [lia|exact Nj].
+      - eapply Bc; [|exact Nj]. lia. }
+    destruct (is_bracket_complete bp) eqn:Cp.
+    + (* all brackets are complete: open a new one and make it primary *)
+      assert (p' = length bs - 1)%nat by (eapply Cl; eauto).
+      unfold create_new_bracket. cbn [set_brackets set_primary m_rs m_mode m_brackets m_offsets m_primary].
+      assert (Core2 := core_new_bracket _ _ _ _ _ OK Core). fold bs' in Core2.
+      eexists. split; [reflexivity|]. cbn [s_mgr s_pending s_removable s_ntrials]. split.
+      * apply mkInv'; cbn [m_rs m_mode m_brackets m_offsets m_primary set_brackets set_primary].
+        -- rewrite I3, app_length, Lbs'. simpl. rewrite Nat.add_1_r, seq_snoc, map_app. reflexivity.
+        -- rewrite app_length. simpl. lia.
+        -- intros j bj Hn Hj. rewrite nth_error_app1 in Hn by lia.
+           destruct (Nat.eq_dec j p') as [->|NEq]; [congruence|]. eapply Below; eauto. lia.
+        -- intros bj Hn. rewrite nth_error_app2 in Hn by lia. rewrite Nat.sub_diag in Hn. simpl in Hn.
+           inversion Hn. apply complete_new_bracket. apply CKs, mod_lt_len, NE.
+        -- exact Core2.
+      * exists b', sl', lv'. split; [|auto]. cbn [m_brackets set_primary set_brackets]. rewrite nth_error_app1 by lia. exact Nb'.
+    + eexists. split; [reflexivity|]. cbn [s_mgr s_pending s_removable s_ntrials]. split.
+      * apply mkInv'; cbn [m_rs m_mode m_brackets m_offsets m_primary set_brackets set_primary].
+        -- unfold bs' in *; rewrite ?upd_length in *; exact I3.
+        -- lia.
+        -- exact Below.
+        -- intros bj Hn. congruence.
+        -- exact Core.
+      * exists b', sl', lv'. auto.
+  - apply Nat.eqb_neq in Ep. eexists. split; [reflexivity|]. cbn [s_mgr s_pending s_removable s_ntrials]. split.
+    + apply mkInv'; cbn [m_rs m_mode m_brackets m_offsets m_primary set_brackets set_primary].
+      * unfold bs' in *; rewrite ?upd_length in *; exact I3.
+      * lia.
+      * intros j bj Hn Hj. eapply I5; [|exact Hj]. apply CompOther; [lia|exact Hn].
+      * intros bj Hn. apply I6. apply CompOther; [lia|exact Hn].
+      * exact Core.
+    + exists b', sl', lv'. auto.
+Qed.
+
+(* ---- every event keeps the invariant and is accepted ----------------------- *)
+Lemma step_inv : forall rss md st o, rss_ok rss -> Inv rss md st ->
+  exists st', step st o = Ok st' /\ Inv rss md st'.
+Proof.
+  intros rss md st o OK I. destruct o as [|t below v|t|]; simpl.
+  - destruct (suggest_inv _ _ _ OK I) as [st' [sg [bid [s [m' [E [I' _]]]]]]]. rewrite E. eauto.
+  - unfold on_trial_result. destruct (lookup t (s_pending st)) as [[bid s]|] eqn:LK; [|eauto].
+    assert (LK' := lookup_In _ _ _ LK).
+    destruct (ic_p _ _ _ _ _ (iv_core _ _ _ I) _ _ _ LK') as [_ T _].
+    rewrite T. replace (tid_eqb (Some t) (Some t)) with true by (symmetry; apply tid_eqb_eq; reflexivity).
+    cbn [negb]. destruct below as [|k].
+    + replace (level s - Z.of_nat 0)%Z with (level s) by lia.
+      rewrite Z.leb_refl, Z.eqb_refl. cbn [negb].
+      destruct (answer_inv _ _ _ _ _ _ v OK I LK) as [st' [E [I' _]]]. rewrite T in E. rewrite E. eauto.
+    + replace (Z.leb (level s) (level s - Z.of_nat (S k))) with false by (symmetry; apply Z.leb_gt; lia). eauto.
+  - unfold on_trial_error, report_as_failed. destruct (lookup t (s_pending st)) as [[bid s]|] eqn:LK; [|eauto].
+    destruct (answer_inv _ _ _ _ _ _ NaN OK I LK) as [st' [E [I' _]]]. rewrite E. eauto.
+  - eexists. split; [reflexivity|]. destruct I as [I1 I2 I3 I4 I5 I6 I7]. constructor; auto.
+Qed.
+
+Lemma init_inv : forall rss md, check_bracket_rungs rss = true ->
+  exists st, shell_init rss md = Ok st /\ Inv rss md st.
+Proof.
+  intros rss md CK. assert (OK := check_bracket_rungs_ok _ CK). destruct OK as [NE CKs].
+  unfold shell_init, mgr_init. rewrite CK. unfold create_new_bracket. cbn [m_brackets m_rs m_mode m_offsets m_primary length].
+  eexists. split; [reflexivity|].
+  assert (Z0 : (0 mod length rss = 0)%nat) by (apply Nat.mod_0_l; destruct rss; simpl; [congruence|lia]).
+  set (sys := nth (0 mod length rss) rss []).
+  assert (CKsys : check_rungs sys = true) by (apply CKs, mod_lt_len, NE).
+  assert (Core0 : InvCore rss md [] [] 0).
+  { constructor; try (intros; match goal with H : nth_error [] ?j = Some _ |- _ => destruct j; discriminate end);
+      try (intros; contradiction). constructor. }
+  assert (Core1 := core_new_bracket _ _ _ _ _ (conj NE CKs) Core0). cbn [length app] in Core1.
+  constructor; cbn [s_mgr s_pending s_ntrials m_rs m_mode m_brackets m_offsets m_primary set_primary app length]; auto.
+  - intros j b H Hj. lia.
+  - intros b H. simpl in H. inversion H. apply complete_new_bracket. exact CKsys.
+Qed.
+
+Lemma run_inv : forall rss md ops st, rss_ok rss -> Inv rss md st ->
+  exists st', run st ops = Ok st' /\ Inv rss md st'.
+Proof.
+  intros rss md. induction ops as [|o ops IH]; intros st OK I; simpl; [eauto|].
+  destruct (step_inv _ _ _ o OK I) as [st1 [E I1]]. rewrite E. apply IH; assumption.
+Qed.
+
+Theorem run_from_inv : forall rss md ops, check_bracket_rungs rss = true ->
+  exists st, run_from rss md ops = Ok st /\ Inv rss md st.
+Proof.
+  intros rss md ops CK. unfold run_from. destruct (init_inv rss md CK) as [st0 [E I]]. rewrite E.
+  apply run_inv; [apply check_bracket_rungs_ok; exact CK|exact I].
+Qed.
+
+(* ======================================================================== *)
+(* Part 6: the statements of C05 on reachable states                         *)
+(* ======================================================================== *)
+
+Theorem no_error : forall rss md ops, check_bracket_rungs rss = true ->
+  exists st, run_from rss md ops = Ok st.
+Proof. intros rss md ops CK. destruct (run_from_inv rss md ops CK) as [st [E _]]. eauto. Qed.
+
+Lemma reach_inv : forall rss md ops st, check_bracket_rungs rss = true ->
+  run_from rss md ops = Ok st -> Inv rss md st /\ rss_ok rss.
+Proof.
+  intros rss md ops st CK E. destruct (run_from_inv rss md ops CK) as [st' [E' I]].
+  rewrite E in E'. inversion E'; subst. split; [exact I|apply check_bracket_rungs_ok; exact CK].
+Qed.
+
+Lemma nth_error_map_seq : forall (f : nat -> nat) n j, (j < n)%nat -> nth_error (map f (seq 0 n)) j = Some (f j).
+Proof.
+  intros f n j H. rewrite nth_error_map. rewrite (nth_error_nth' (seq 0 n) 0%nat) by (rewrite seq_length; exact H).
+  rewrite seq_nth by exact H. reflexivity.
+Qed.
+
+Theorem offsets_cycle : forall rss md ops st, check_bracket_rungs rss = true ->
+  run_from rss md ops = Ok st ->
+  length (m_offsets (s_mgr st)) = length (m_brackets (s_mgr st)) /\
+  forall j b, nth_error (m_brackets (s_mgr st)) j = Some b ->
+    nth_error (m_offsets (s_mgr st)) j = Some (j mod length rss)%nat /\
+    map entry_shape (rungs b) = nth (j mod length rss) rss [] /\ bmode b = md.
+Proof.
+  intros rss md ops st CK E. destruct (reach_inv _ _ _ _ CK E) as [I _].
+  rewrite (iv_off _ _ _ I). split; [rewrite map_length, seq_length; reflexivity|].
+  intros j b Nb. split; [apply (nth_error_map_seq (fun j0 => (j0 mod length rss)%nat)); eapply nth_error_lt; eauto|].
+  assert (B := ic_b _ _ _ _ _ (iv_core _ _ _ I) _ _ Nb). split; [exact (bi_sys _ _ _ B)|exact (bi_mode _ _ _ B)].
+Qed.
+
+Theorem rung_filled_by_distinct : forall rss md ops st, check_bracket_rungs rss = true ->
+  run_from rss md ops = Ok st ->
+  forall j b, nth_error (m_brackets (s_mgr st)) j = Some b ->
+  forall k, (k < current_rung b)%nat ->
+    exists sl lv, nth_error (rungs b) k = Some (Filled sl lv) /\
+      nth_error (nth (j mod length rss) rss []) k = Some (length sl, lv) /\
+      Forall (fun s => exists t v, s = (Some t, Some v)) sl /\ NoDup (map fst sl).
+Proof.
+  intros rss md ops st CK E j b Nb k Hk. destruct (reach_inv _ _ _ _ CK E) as [I _].
+  assert (B := ic_b _ _ _ _ _ (iv_core _ _ _ I) _ _ Nb).
+  destruct (bi_done _ _ _ B k Hk) as [sl [lv [N [F ND]]]]. exists sl, lv. split; [exact N|].
+  split; [|split; assumption]. rewrite <- (bi_sys _ _ _ B), nth_error_map, N. reflexivity.
+Qed.
+
+(* the rung being filled: configured size, distinct trials, slots beyond first_free_pos untouched *)
+Theorem current_rung_shape : forall rss md ops st, check_bracket_rungs rss = true ->
+  run_from rss md ops = Ok st ->
+  forall j b sl lv, nth_error (m_brackets (s_mgr st)) j = Some b ->
+    current_rung_and_level b = Ok (sl, lv) ->
+    nth_error (nth (j mod length rss) rss []) (current_rung b) = Some (length sl, lv) /\
+    NoDup (somes (map fst sl)) /\ (first_free_pos b <= length sl)%nat /\
+    (exists pos t, nth_error sl pos = Some (t, None)).
+Proof.
+  intros rss md ops st CK E j b sl lv Nb C. destruct (reach_inv _ _ _ _ CK E) as [I _].
+  assert (B := ic_b _ _ _ _ _ (iv_core _ _ _ I) _ _ Nb). assert (CO := binv_cur_ok _ _ _ _ _ B C).
+  destruct (crl_inv _ _ _ C) as [N _]. split.
+  - rewrite <- (bi_sys _ _ _ B), nth_error_map, N. reflexivity.
+  - split; [exact (co_nodup _ _ CO)|]. split; [exact (co_ffp _ _ CO)|exact (co_open _ _ CO)].
+Qed.
+
+Theorem never_blocks : forall rss md ops st, check_bracket_rungs rss = true ->
+  run_from rss md ops = Ok st ->
+  exists m' bid s, next_job (s_mgr st) = Ok (m', (bid, s)) /\
+    (m_primary (s_mgr st) <= bid)%nat /\
+    ((length (m_brackets m') = length (m_brackets (s_mgr st)) /\ (bid < length (m_brackets (s_mgr st)))%nat /\
+      (exists b, nth_error (m_brackets (s_mgr st)) bid = Some b /\ has_free_slot b = true))
+     \/ (length (m_brackets m') = S (length (m_brackets (s_mgr st))) /\ bid = length (m_brackets (s_mgr st)) /\
+         forall j b, (m_primary (s_mgr st) <= j)%nat -> nth_error (m_brackets (s_mgr st)) j = Some b ->
+                     has_free_slot b = false)).
+Proof.
+  intros rss md ops st CK E. destruct (reach_inv _ _ _ _ CK E) as [I OK].
+  destruct (suggest_inv _ _ _ OK I) as [st' [sg [bid [s [m' [_ [_ [NJ [_ [Pb [Cases _]]]]]]]]]]].
+  exists m', bid, s. auto.
+Qed.
+
+Theorem promote_after_complete : forall rss md ops st m' bid s, check_bracket_rungs rss = true ->
+  run_from rss md ops = Ok st -> next_job (s_mgr st) = Ok (m', (bid, s)) ->
+  exists b', nth_error (m_brackets m') bid = Some b' /\ rung_index s = current_rung b' /\
+    is_bracket_complete b' = false /\
+    forall k, (k < rung_index s)%nat ->
+      exists sl lv, nth_error (rungs b') k = Some (Filled sl lv) /\
+                    Forall (fun x => exists t v, x = (Some t, Some v)) sl.
+Proof.
+  intros rss md ops st m' bid s CK E NJ. destruct (reach_inv _ _ _ _ CK E) as [I OK].
+  destruct (suggest_inv _ _ _ OK I) as [st' [sg [bid0 [s0 [m0 [_ [I' [NJ0 [Em [_ [_ [b' [Nb' [Er NC]]]]]]]]]]]]]].
+  rewrite NJ in NJ0. injection NJ0 as -> -> ->. exists b'. split; [exact Nb'|]. split; [exact Er|]. split; [exact NC|].
+  intros k Hk. rewrite <- Em in Nb'.
+  assert (B := ic_b _ _ _ _ _ (iv_core _ _ _ I') _ _ Nb').
+  destruct (bi_done _ _ _ B k) as [sl [lv [N [F _]]]]; [lia|]. eauto.
+Qed.
+
+Lemma In_lookup : forall t j (P : list (Z * job)), NoDup (map fst P) -> In (t, j) P -> lookup t P = Some j.
+Proof.
+  induction P as [|[k w] P IH]; intros N H; simpl in *; [contradiction|]. inversion N; subst.
+  destruct H as [H|H].
+  - inversion H; subst. rewrite Z.eqb_refl. reflexivity.
+  - destruct (Z.eqb k t) eqn:E; [|auto]. apply Z.eqb_eq in E. subst k. exfalso. apply H2.
+    apply (in_map fst) in H. exact H.
+Qed.
+
+Theorem pending_slots_have_trials : forall rss md ops st, check_bracket_rungs rss = true ->
+  run_from rss md ops = Ok st ->
+  forall j b sl lv pos t0, nth_error (m_brackets (s_mgr st)) j = Some b ->
+    current_rung_and_level b = Ok (sl, lv) -> (pos < first_free_pos b)%nat ->
+    nth_error sl pos = Some (t0, None) ->
+    exists t s, lookup t (s_pending st) = Some (j, s) /\ slot_index s = pos /\
+                rung_index s = current_rung b /\ level s = lv /\ trial_id s = Some t.
+Proof.
+  intros rss md ops st CK E j b sl lv pos t0 Nb C Hp Hn. destruct (reach_inv _ _ _ _ CK E) as [I _].
+  assert (Core := iv_core _ _ _ I).
+  destruct (ic_p4 _ _ _ _ _ Core _ _ _ _ _ _ Nb C Hp Hn) as [t [s [Hin Es]]].
+  exists t, s. split; [apply In_lookup; [exact (ic_keys _ _ _ _ _ Core)|exact Hin]|]. split; [exact Es|].
+  destruct (ic_p _ _ _ _ _ Core _ _ _ Hin) as [[b2 [sl2 [lv2 [t2 [N2 [C2 [E1 [E2 [E3 _]]]]]]]]] T _].
+  rewrite Nb in N2. inversion N2; subst b2. rewrite C in C2. inversion C2; subst. auto.
+Qed.
+
+Theorem trial_error_fills_slot : forall rss md ops st t bid s, check_bracket_rungs rss = true ->
+  run_from rss md ops = Ok st -> lookup t (s_pending st) = Some (bid, s) ->
+  exists st', on_trial_error st t = Ok st' /\ lookup t (s_pending st') = None /\
+    exists b' sl' lv', nth_error (m_brackets (s_mgr st')) bid = Some b' /\
+      nth_error (rungs b') (rung_index s) = Some (Filled sl' lv') /\
+      nth_error sl' (slot_index s) = Some (Some t, Some NaN).
+Proof.
+  intros rss md ops st t bid s CK E LK. destruct (reach_inv _ _ _ _ CK E) as [I OK].
+  destruct (answer_inv _ _ _ _ _ _ NaN OK I LK) as [st' [Ea [_ Slot]]].
+  unfold on_trial_error, report_as_failed. rewrite LK, Ea. eexists. split; [reflexivity|].
+  cbn [s_pending s_mgr]. split; [apply lookup_remove|exact Slot].
+Qed.
+
+(* the trials put into the next rung are the top list of the completed one, and the
+   hypotheses of get_top_list_spec hold for it *)
+Theorem promoted_are_top : forall rss md ops st t bid s v b b' rem, check_bracket_rungs rss = true ->
+  run_from rss md ops = Ok st -> lookup t (s_pending st) = Some (bid, s) ->
+  nth_error (m_brackets (s_mgr st)) bid = Some b ->
+  bracket_on_result b (mkSIR (rung_index s) (level s) (slot_index s) (trial_id s) (Some v)) = Ok (b', Some rem) ->
+  exists sl lv vals nl ms top,
+    current_rung_and_level b = Ok (sl, lv) /\
+    occupied_values (upd sl (slot_index s) (Some t, Some v)) = Some vals /\
+    nth_error (rungs b) (S (current_rung b)) = Some (Future nl ms) /\
+    get_top_list md vals nl = (top, rem) /\
+    current_rung_and_level b' = Ok (map (fun x => (x, None)) top, ms) /\
+    current_rung b' = S (current_rung b) /\
+    NoDup (map fst vals) /\ (nl <= length vals)%nat.
+Proof.
+  intros rss md ops st t bid s v b b' rem CK E LK Nb R. destruct (reach_inv _ _ _ _ CK E) as [I [NE CKs]].
+  assert (Core := iv_core _ _ _ I). apply lookup_In in LK.
+  destruct (ic_p _ _ _ _ _ Core _ _ _ LK) as [[b2 [sl [lv [t0 [N2 [C [E1 [E2 [E3 [E4 [E5 K]]]]]]]]]]] T M].
+  rewrite Nb in N2. inversion N2; subst b2. clear N2.
+  assert (Bb := ic_b _ _ _ _ _ Core _ _ Nb).
+  assert (CKb : check_rungs (nth (bid mod length rss) rss []) = true) by (apply CKs, mod_lt_len, NE).
+  set (r := mkSIR (rung_index s) (level s) (slot_index s) (trial_id s) (Some v)) in *.
+  assert (FRESH : nth_error sl (slot_index r) = Some (None, None) -> ~ In t (cur_ids b)).
+  { intro X. simpl in X. rewrite E4 in X. inversion X; subst t0. eapply K; eauto. }
+  destruct (answer_facts _ _ _ _ _ _ _ _ _ Bb C R T FRESH) as [t1 [v1 [_ [_ [MV [ND [_ [OCC LEN]]]]]]]].
+  simpl in MV. inversion MV; subst v1. cbv zeta in *. simpl slot_index in *.
+  destruct (bor_inv _ _ _ _ _ _ C R) as [_ [_ [_ [_ [v' [MV' Cases]]]]]].
+  simpl in MV'. inversion MV'; subst v'. cbv zeta in Cases. simpl trial_id in Cases. rewrite T in Cases. simpl slot_index in Cases.
+  destruct (crl_inv _ _ _ C) as [Nth _].
+  assert (Lc : (current_rung b < length (rungs b))%nat) by (eapply nth_error_lt; eauto).
+  destruct Cases as [[_ [_ X]]|[[_ [_ [_ X]]]|[F [nl [ms [vals [top [rem0 [N2 [OV [G [Eb X]]]]]]]]]]]]; try discriminate.
+  inversion X; subst rem0. rewrite nth_error_upd_neq in N2 by lia.
+  exists sl, lv, vals, nl, ms, top. split; [exact C|]. split; [exact OV|]. split; [exact N2|].
+  rewrite (bi_mode _ _ _ Bb) in G. split; [exact G|].
+  destruct (occupied_values_some _ _ OV) as [MF LV].
+  destruct (is_full_spec _ _ F) as [_ Occ].
+  unfold slot, tid in *. split; [|split; [|split]].
+  - rewrite Eb. apply crl_of_nth. cbn [rungs current_rung]. apply nth_error_upd_eq. rewrite upd_length.
+    apply nth_error_lt in N2. exact N2.
+  - rewrite Eb. reflexivity.
+  - rewrite MF. rewrite (all_some_map (map fst (upd sl (slot_index s) (Some t, Some v)))).
+    + apply nodup_map_Some. exact ND.
+    + intros x Hx. apply in_map_iff in Hx. destruct Hx as [[x' [w|]] [<- Hi]]; simpl.
+      * eapply OCC; eauto.
+      * exfalso. apply (Occ _ Hi). reflexivity.
+  - destruct (check_rungs_spec _ CKb) as [_ [_ Dec]].
+    assert (S0 : nth_error (nth (bid mod length rss) rss []) (current_rung b) = Some (length sl, lv)).
+    { rewrite <- (bi_sys _ _ _ Bb), nth_error_map, Nth. reflexivity. }
+    assert (S1 : nth_error (nth (bid mod length rss) rss []) (S (current_rung b)) = Some (nl, ms)).
+    { rewrite <- (bi_sys _ _ _ Bb), nth_error_map, N2. reflexivity. }
+    assert (nl < length sl)%nat by (eapply Dec; eauto). rewrite LV, LEN. lia.
+Qed.
